@@ -3,6 +3,13 @@
   inputs that agree on the public parameters and have secret parameters of the same shape, produces
   the same leakage trace — unless the two runs differ in a declassified verdict, in which case the
   traces agree up to the first differing verdict.
+
+  The interpreter is total (`Ctl.stuck` with the trace so far), so the main invariant is a LOCKSTEP
+  statement: two runs with the same fuel, without any termination hypothesis (`exec_lockstep`,
+  `check_lockstep`).  Consequences: whether a run completes within a given fuel is itself a public
+  property up to declassified verdicts (`check_progress`, `check_progress_verdicts`), and, with
+  monotonicity in the fuel (`exec_mono`), the statement about two completed runs with arbitrary fuels
+  (`check_sound`, `check_sound_trace`).
 -/
 import SMGo.Model.CTIR
 
@@ -20,12 +27,13 @@ def lowEqList : List Label → List Val → List Val → Prop
 
 def lowEqEnv (Γ : LEnv) (e1 e2 : Env) : Prop := ∀ x, lowEqV (Γ.get x) (e1 x) (e2 x)
 
-/-- the two external worlds of the two runs: the same call (same arguments) gives results that
-    agree at the declared labels, and calls with arguments of the same shape give results of the
-    same shape (needed only for the non-leaking `obs` calls, whose results are all secret) -/
+/-- the two external worlds of the two runs: the same call (same name, same arguments) gives results
+    that agree at the declared labels; and for an external whose results are all secret (the only ones
+    the checker lets be called without leaking their arguments) calls with arguments of the same
+    shape give results of the same shape -/
 def OracleRel (S : Sigs) (X1 X2 : Oracle) : Prop :=
   (∀ name a, lowEqList (S.ext.getD name []) (X1 name a) (X2 name a)) ∧
-  (∀ name a1 a2, a1.map Val.erase = a2.map Val.erase →
+  (∀ name a1 a2, allH (S.ext.getD name []) = true → a1.map Val.erase = a2.map Val.erase →
       (X1 name a1).map Val.erase = (X2 name a2).map Val.erase)
 
 /-- the traces diverge at a declassified verdict: common prefix, then the same site with two
@@ -38,6 +46,7 @@ def CtlRel (res : List Label) : Ctl → Ctl → Prop
   | .brk, .brk => True
   | .cont, .cont => True
   | .panic, .panic => True
+  | .stuck, .stuck => True
   | .ret v1, .ret v2 => lowEqList res v1 v2
   | _, _ => False
 
@@ -262,14 +271,15 @@ theorem evalE_slice {a lo hi : Expr} {v : Val} {t : Trace}
 
 theorem evalE_mk {n init : Expr} {v : Val} {t : Trace} (h : evalE G env (.mk n init) = some (v, t)) :
     ∃ k t1 w t2, evalE G env n = some (.int k, t1) ∧ evalE G env init = some (w, t2) ∧
-      v = .arr (List.replicate k.toNat w) ∧ t = t1 ++ t2 ++ [.alloc k] := by
+      v = .arr (List.replicate k.toNat w) ∧ t = t1 ++ t2 ++ [.alloc k] ∧ ¬ k < 0 := by
   simp only [evalE] at h
   split at h
   · rename_i k t1 w t2 hn hi
     split at h
     · cases h
-    · cases h
-      exact ⟨k, t1, w, t2, hn, hi, rfl, rfl⟩
+    · rename_i hk
+      cases h
+      exact ⟨k, t1, w, t2, hn, hi, rfl, rfl, hk⟩
   · cases h
 
 theorem evalE_cat {a b : Expr} {v : Val} {t : Trace} (h : evalE G env (.cat a b) = some (v, t)) :
@@ -415,147 +425,350 @@ theorem labelE_op3 {o : Op3} {a b c : Expr} {ℓ : Label} (h : labelE Γ (.op3 o
 end Inv
 
 
-/-! ## Expressions -/
 
-theorem evalE_sound (G : Nat → Val) (Γ : LEnv) (e1 e2 : Env) (hΓ : lowEqEnv Γ e1 e2) :
-    ∀ (e : Expr) (ℓ : Label) (v1 : Val) (t1 : Trace) (v2 : Val) (t2 : Trace),
-      labelE Γ e = some ℓ → evalE G e1 e = some (v1, t1) → evalE G e2 e = some (v2, t2) →
-      t1 = t2 ∧ lowEqV ℓ v1 v2 := by
+/-! ## Symmetry and kinds -/
+
+theorem lowEqV_symm {l : Label} {a b : Val} (h : lowEqV l a b) : lowEqV l b a := by
+  cases l
+  · exact (h : a = b).symm
+  · exact (h : a.erase = b.erase).symm
+
+theorem lowEqEnv_symm {Γ : LEnv} {e1 e2 : Env} (h : lowEqEnv Γ e1 e2) : lowEqEnv Γ e2 e1 :=
+  fun x => lowEqV_symm (h x)
+
+theorem erase_eq_int {n : Int} {v : Val} (h : (Val.int n).erase = v.erase) : ∃ m, v = .int m := by
+  cases v with
+  | int m => exact ⟨m, rfl⟩
+  | arr l => rw [erase_int, erase_arr] at h; cases h
+
+theorem erase_eq_arr {l : List Val} {v : Val} (h : (Val.arr l).erase = v.erase) : ∃ l', v = .arr l' := by
+  cases v with
+  | int m => rw [erase_int, erase_arr] at h; cases h
+  | arr l' => exact ⟨l', rfl⟩
+
+theorem lowEqV_int_inv {l : Label} {n : Int} {v : Val} (h : lowEqV l (.int n) v) : ∃ m, v = .int m :=
+  erase_eq_int (lowEqV_erase h)
+
+theorem lowEqV_arr_inv {l : Label} {a : List Val} {v : Val} (h : lowEqV l (.arr a) v) :
+    ∃ a', v = .arr a' :=
+  erase_eq_arr (lowEqV_erase h)
+
+theorem eraseL_length {l1 l2 : List Val} (h : l1.map Val.erase = l2.map Val.erase) :
+    l1.length = l2.length := by
+  have := congrArg List.length h
+  simpa only [List.length_map] using this
+
+theorem lowEqV_length {l : Label} {l1 l2 : List Val} (h : lowEqV l (.arr l1) (.arr l2)) :
+    l1.length = l2.length :=
+  eraseL_length (eraseL_of_arr (lowEqV_erase h))
+
+theorem getElem?_shape {l1 l2 : List Val} (hlen : l1.length = l2.length) {k : Nat} {v1 : Val}
+    (h1 : l1[k]? = some v1) : ∃ v2, l2[k]? = some v2 := by
+  have hk : k < l1.length := (List.getElem?_eq_some_iff.1 h1).1
+  have hk2 : k < l2.length := hlen ▸ hk
+  exact ⟨l2[k], List.getElem?_eq_getElem hk2⟩
+
+theorem getIdx_shape {l1 l2 : List Val} (hlen : l1.length = l2.length) {n : Int} {v1 : Val}
+    (h1 : getIdx l1 n = some v1) : ∃ v2, getIdx l2 n = some v2 := by
+  unfold getIdx at h1 ⊢
+  split at h1
+  · cases h1
+  · rename_i hn
+    rw [if_neg hn]
+    exact getElem?_shape hlen h1
+
+theorem sliceList_shape {l1 l2 : List Val} (hlen : l1.length = l2.length) {n m : Int} {r1 : List Val}
+    (h1 : sliceList l1 n m = some r1) : ∃ r2, sliceList l2 n m = some r2 := by
+  unfold sliceList at h1 ⊢
+  split at h1
+  · cases h1
+  · rename_i hn
+    rw [hlen] at hn
+    rw [if_neg hn]
+    exact ⟨_, rfl⟩
+
+theorem ctEqList_shape : ∀ (a b a' b' : List Val) (r : Int),
+    a.map Val.erase = a'.map Val.erase → b.map Val.erase = b'.map Val.erase →
+    ctEqList a b = some r → ∃ r', ctEqList a' b' = some r' := by
+  intro a
+  induction a with
+  | nil =>
+    intro b a' b' r ha hb h
+    cases a' with
+    | cons _ _ => simp at ha
+    | nil =>
+      cases b with
+      | nil =>
+        cases b' with
+        | nil => exact ⟨1, rfl⟩
+        | cons _ _ => simp at hb
+      | cons y bs =>
+        cases b' with
+        | nil => simp at hb
+        | cons y' bs' => exact ⟨0, rfl⟩
+  | cons x as ih =>
+    intro b a' b' r ha hb h
+    cases a' with
+    | nil => simp at ha
+    | cons x' as' =>
+      simp only [List.map_cons, List.cons.injEq] at ha
+      cases b with
+      | nil =>
+        cases b' with
+        | nil => exact ⟨0, by cases x' <;> rfl⟩
+        | cons _ _ => simp at hb
+      | cons y bs =>
+        cases b' with
+        | nil => simp at hb
+        | cons y' bs' =>
+          simp only [List.map_cons, List.cons.injEq] at hb
+          cases x with
+          | arr _ => simp [ctEqList] at h
+          | int xn =>
+            cases y with
+            | arr _ => simp [ctEqList] at h
+            | int yn =>
+              obtain ⟨xn', rfl⟩ := erase_eq_int ha.1
+              obtain ⟨yn', rfl⟩ := erase_eq_int hb.1
+              simp only [ctEqList] at h ⊢
+              cases hr : ctEqList as bs with
+              | none => simp [hr] at h
+              | some r0 =>
+                obtain ⟨r0', hr'⟩ := ih bs as' bs' r0 ha.2 hb.2 hr
+                rw [hr']
+                exact ⟨_, rfl⟩
+
+theorem evalOp2_shape {o : Op2} {n1 m1 n2 m2 r1 : Int} (h : evalOp2 o n1 m1 = some r1)
+    (hs : o.isShift = true → m1 = m2) : ∃ r2, evalOp2 o n2 m2 = some r2 := by
+  cases o with
+  | shl t =>
+    have := hs rfl
+    subst this
+    simp only [evalOp2] at h ⊢
+    split at h
+    · cases h
+    · rename_i hm
+      rw [if_neg hm]
+      exact ⟨_, rfl⟩
+  | shr =>
+    have := hs rfl
+    subst this
+    simp only [evalOp2] at h ⊢
+    split at h
+    · cases h
+    · rename_i hm
+      rw [if_neg hm]
+      exact ⟨_, rfl⟩
+  | _ => exact ⟨_, rfl⟩
+
+theorem updPath_shape : ∀ (ks : List Nat) (o1 o2 v1 v2 n1 : Val), o1.erase = o2.erase →
+    updPath o1 ks v1 = some n1 → ∃ n2, updPath o2 ks v2 = some n2 := by
+  intro ks
+  induction ks with
+  | nil =>
+    intro o1 o2 v1 v2 n1 _ _
+    exact ⟨v2, by rw [updPath]⟩
+  | cons k ks ih =>
+    intro o1 o2 v1 v2 n1 ho h1
+    cases o1 with
+    | int a => rw [updPath] at h1; cases h1
+    | arr l1 =>
+      obtain ⟨l2, rfl⟩ := erase_eq_arr ho
+      have hl := eraseL_of_arr ho
+      rw [updPath] at h1 ⊢
+      cases hk1 : l1[k]? with
+      | none => simp [hk1] at h1
+      | some a1 =>
+        obtain ⟨a2, hk2⟩ := getElem?_shape (eraseL_length hl) hk1
+        simp only [hk1, hk2] at h1 ⊢
+        cases hu1 : updPath a1 ks v1 with
+        | none => simp [hu1] at h1
+        | some m1 =>
+          obtain ⟨m2, hu2⟩ := ih a1 a2 v1 v2 m1 (eraseL_getElem? hl k hk1 hk2) hu1
+          rw [hu2]
+          exact ⟨_, rfl⟩
+
+
+/-! ## Expressions: what the first run computes, the second computes too, with the same events -/
+
+theorem evalE_fwd (G : Nat → Val) (Γ : LEnv) (e1 e2 : Env) (hΓ : lowEqEnv Γ e1 e2) :
+    ∀ (e : Expr) (ℓ : Label) (v1 : Val) (t1 : Trace),
+      labelE Γ e = some ℓ → evalE G e1 e = some (v1, t1) →
+      ∃ v2, evalE G e2 e = some (v2, t1) ∧ lowEqV ℓ v1 v2 := by
   intro e
   induction e with
   | lit n =>
-    intro ℓ v1 t1 v2 t2 _ h1 h2
-    simp only [evalE] at h1 h2
-    cases h1; cases h2
-    exact ⟨rfl, lowEqV_refl _ _⟩
+    intro ℓ v1 t1 _ h1
+    simp only [evalE] at h1 ⊢
+    cases h1
+    exact ⟨_, rfl, lowEqV_refl _ _⟩
   | glob g =>
-    intro ℓ v1 t1 v2 t2 _ h1 h2
-    simp only [evalE] at h1 h2
-    cases h1; cases h2
-    exact ⟨rfl, lowEqV_refl _ _⟩
+    intro ℓ v1 t1 _ h1
+    simp only [evalE] at h1 ⊢
+    cases h1
+    exact ⟨_, rfl, lowEqV_refl _ _⟩
   | var x =>
-    intro ℓ v1 t1 v2 t2 hl h1 h2
-    simp only [evalE] at h1 h2
+    intro ℓ v1 t1 hl h1
+    simp only [evalE] at h1 ⊢
     simp only [labelE] at hl
-    cases h1; cases h2; cases hl
-    exact ⟨rfl, hΓ x⟩
+    cases h1; cases hl
+    exact ⟨_, rfl, hΓ x⟩
   | idx a i iha ihi =>
-    intro ℓ v1 t1 v2 t2 hl h1 h2
-    obtain ⟨l1, ta1, n1, ti1, ha1, hi1, hg1, rfl⟩ := evalE_idx h1
-    obtain ⟨l2, ta2, n2, ti2, ha2, hi2, hg2, rfl⟩ := evalE_idx h2
+    intro ℓ v1 t1 hl h1
+    obtain ⟨l1, ta, n, ti, ha1, hi1, hg1, rfl⟩ := evalE_idx h1
     obtain ⟨hla, hli⟩ := labelE_idx hl
-    obtain ⟨rfl, hva⟩ := iha _ _ _ _ _ hla ha1 ha2
-    obtain ⟨rfl, hvi⟩ := ihi _ _ _ _ _ hli hi1 hi2
-    have := lowEqV_L_int hvi
-    subst this
-    exact ⟨rfl, lowEqV_getIdx hva _ hg1 hg2⟩
+    obtain ⟨va2, ha2, hva⟩ := iha _ _ _ hla ha1
+    obtain ⟨vi2, hi2, hvi⟩ := ihi _ _ _ hli hi1
+    obtain ⟨l2, rfl⟩ := lowEqV_arr_inv hva
+    have hn : Val.int n = vi2 := hvi
+    subst hn
+    obtain ⟨v2, hg2⟩ := getIdx_shape (lowEqV_length hva) hg1
+    refine ⟨v2, ?_, lowEqV_getIdx hva _ hg1 hg2⟩
+    simp only [evalE, ha2, hi2, hg2]
   | idxc a k iha =>
-    intro ℓ v1 t1 v2 t2 hl h1 h2
+    intro ℓ v1 t1 hl h1
     obtain ⟨l1, ha1, hg1⟩ := evalE_idxc h1
-    obtain ⟨l2, ha2, hg2⟩ := evalE_idxc h2
     have hla : labelE Γ a = some ℓ := by simpa only [labelE] using hl
-    obtain ⟨rfl, hva⟩ := iha _ _ _ _ _ hla ha1 ha2
-    exact ⟨rfl, lowEqV_getElem? hva _ hg1 hg2⟩
+    obtain ⟨va2, ha2, hva⟩ := iha _ _ _ hla ha1
+    obtain ⟨l2, rfl⟩ := lowEqV_arr_inv hva
+    obtain ⟨v2, hg2⟩ := getElem?_shape (lowEqV_length hva) hg1
+    refine ⟨v2, ?_, lowEqV_getElem? hva _ hg1 hg2⟩
+    simp only [evalE, ha2, hg2]
   | len a iha =>
-    intro ℓ v1 t1 v2 t2 hl h1 h2
+    intro ℓ v1 t1 hl h1
     obtain ⟨l1, ha1, rfl⟩ := evalE_len h1
-    obtain ⟨l2, ha2, rfl⟩ := evalE_len h2
     obtain ⟨rfl, la, hla⟩ := labelE_len hl
-    obtain ⟨rfl, hva⟩ := iha _ _ _ _ _ hla ha1 ha2
-    refine ⟨rfl, ?_⟩
-    have hlen : l1.length = l2.length := by
-      have := congrArg List.length (eraseL_of_arr (lowEqV_erase hva))
-      simpa only [List.length_map] using this
-    show Val.int _ = Val.int _
-    rw [hlen]
+    obtain ⟨va2, ha2, hva⟩ := iha _ _ _ hla ha1
+    obtain ⟨l2, rfl⟩ := lowEqV_arr_inv hva
+    refine ⟨.int l2.length, ?_, ?_⟩
+    · simp only [evalE, ha2]
+    · show Val.int _ = Val.int _
+      rw [lowEqV_length hva]
   | slice a lo hi iha ihlo ihhi =>
-    intro ℓ v1 t1 v2 t2 hl h1 h2
-    obtain ⟨l1, ta1, n1, tl1, m1, th1, r1, ha1, hlo1, hhi1, hs1, rfl, rfl⟩ := evalE_slice h1
-    obtain ⟨l2, ta2, n2, tl2, m2, th2, r2, ha2, hlo2, hhi2, hs2, rfl, rfl⟩ := evalE_slice h2
+    intro ℓ v1 t1 hl h1
+    obtain ⟨l1, ta, n, tl, m, th, r1, ha1, hlo1, hhi1, hs1, rfl, rfl⟩ := evalE_slice h1
     obtain ⟨hla, hllo, hlhi⟩ := labelE_slice hl
-    obtain ⟨rfl, hva⟩ := iha _ _ _ _ _ hla ha1 ha2
-    obtain ⟨rfl, hvlo⟩ := ihlo _ _ _ _ _ hllo hlo1 hlo2
-    obtain ⟨rfl, hvhi⟩ := ihhi _ _ _ _ _ hlhi hhi1 hhi2
-    have := lowEqV_L_int hvlo
-    subst this
-    have := lowEqV_L_int hvhi
-    subst this
-    exact ⟨rfl, lowEqV_slice hva _ _ hs1 hs2⟩
+    obtain ⟨va2, ha2, hva⟩ := iha _ _ _ hla ha1
+    obtain ⟨vlo2, hlo2, hvlo⟩ := ihlo _ _ _ hllo hlo1
+    obtain ⟨vhi2, hhi2, hvhi⟩ := ihhi _ _ _ hlhi hhi1
+    obtain ⟨l2, rfl⟩ := lowEqV_arr_inv hva
+    have hn : Val.int n = vlo2 := hvlo
+    subst hn
+    have hm : Val.int m = vhi2 := hvhi
+    subst hm
+    obtain ⟨r2, hs2⟩ := sliceList_shape (lowEqV_length hva) hs1
+    refine ⟨.arr r2, ?_, lowEqV_slice hva _ _ hs1 hs2⟩
+    simp only [evalE, ha2, hlo2, hhi2, hs2]
   | mk n init ihn ihi =>
-    intro ℓ v1 t1 v2 t2 hl h1 h2
-    obtain ⟨k1, tn1, w1, ti1, hn1, hi1, rfl, rfl⟩ := evalE_mk h1
-    obtain ⟨k2, tn2, w2, ti2, hn2, hi2, rfl, rfl⟩ := evalE_mk h2
+    intro ℓ v1 t1 hl h1
+    obtain ⟨k, tn, w1, ti, hn1, hi1, rfl, rfl, hk⟩ := evalE_mk h1
     obtain ⟨hln, hli⟩ := labelE_mk hl
-    obtain ⟨rfl, hvn⟩ := ihn _ _ _ _ _ hln hn1 hn2
-    obtain ⟨rfl, hvi⟩ := ihi _ _ _ _ _ hli hi1 hi2
-    have := lowEqV_L_int hvn
-    subst this
-    exact ⟨rfl, lowEqV_replicate hvi _⟩
+    obtain ⟨vn2, hn2, hvn⟩ := ihn _ _ _ hln hn1
+    obtain ⟨w2, hi2, hvi⟩ := ihi _ _ _ hli hi1
+    have hn : Val.int k = vn2 := hvn
+    subst hn
+    refine ⟨.arr (List.replicate k.toNat w2), ?_, lowEqV_replicate hvi _⟩
+    simp only [evalE, hn2, hi2, if_neg hk]
   | cat a b iha ihb =>
-    intro ℓ v1 t1 v2 t2 hl h1 h2
-    obtain ⟨l1, ta1, m1, tb1, ha1, hb1, rfl, rfl⟩ := evalE_cat h1
-    obtain ⟨l2, ta2, m2, tb2, ha2, hb2, rfl, rfl⟩ := evalE_cat h2
+    intro ℓ v1 t1 hl h1
+    obtain ⟨l1, ta, m1, tb, ha1, hb1, rfl, rfl⟩ := evalE_cat h1
     obtain ⟨la, lb, hla, hlb, rfl⟩ := labelE_cat hl
-    obtain ⟨rfl, hva⟩ := iha _ _ _ _ _ hla ha1 ha2
-    obtain ⟨rfl, hvb⟩ := ihb _ _ _ _ _ hlb hb1 hb2
-    exact ⟨rfl, lowEqV_cat hva hvb⟩
+    obtain ⟨va2, ha2, hva⟩ := iha _ _ _ hla ha1
+    obtain ⟨vb2, hb2, hvb⟩ := ihb _ _ _ hlb hb1
+    obtain ⟨l2, rfl⟩ := lowEqV_arr_inv hva
+    obtain ⟨m2, rfl⟩ := lowEqV_arr_inv hvb
+    refine ⟨.arr (l2 ++ m2), ?_, lowEqV_cat hva hvb⟩
+    simp only [evalE, ha2, hb2]
   | cteq a b iha ihb =>
-    intro ℓ v1 t1 v2 t2 hl h1 h2
-    obtain ⟨l1, ta1, m1, tb1, r1, ha1, hb1, hr1, rfl, rfl⟩ := evalE_cteq h1
-    obtain ⟨l2, ta2, m2, tb2, r2, ha2, hb2, hr2, rfl, rfl⟩ := evalE_cteq h2
+    intro ℓ v1 t1 hl h1
+    obtain ⟨l1, ta, m1, tb, r1, ha1, hb1, hr1, rfl, rfl⟩ := evalE_cteq h1
     obtain ⟨la, lb, hla, hlb, rfl⟩ := labelE_cteq hl
-    obtain ⟨rfl, hva⟩ := iha _ _ _ _ _ hla ha1 ha2
-    obtain ⟨rfl, hvb⟩ := ihb _ _ _ _ _ hlb hb1 hb2
-    refine ⟨rfl, lowEqV_int ?_⟩
-    intro hj
-    obtain ⟨rfl, rfl⟩ := join_eq_L hj
-    have e1 := lowEqV_L_arr hva
-    have e2 := lowEqV_L_arr hvb
-    subst e1; subst e2
-    exact Option.some.inj (hr1.symm.trans hr2)
+    obtain ⟨va2, ha2, hva⟩ := iha _ _ _ hla ha1
+    obtain ⟨vb2, hb2, hvb⟩ := ihb _ _ _ hlb hb1
+    obtain ⟨l2, rfl⟩ := lowEqV_arr_inv hva
+    obtain ⟨m2, rfl⟩ := lowEqV_arr_inv hvb
+    obtain ⟨r2, hr2⟩ := ctEqList_shape l1 m1 l2 m2 r1 (eraseL_of_arr (lowEqV_erase hva))
+      (eraseL_of_arr (lowEqV_erase hvb)) hr1
+    refine ⟨.int r2, ?_, lowEqV_int ?_⟩
+    · simp only [evalE, ha2, hb2, hr2]
+    · intro hj
+      obtain ⟨rfl, rfl⟩ := join_eq_L hj
+      have e1 := lowEqV_L_arr hva
+      have e2 := lowEqV_L_arr hvb
+      subst e1; subst e2
+      exact Option.some.inj (hr1.symm.trans hr2)
   | op1 o a iha =>
-    intro ℓ v1 t1 v2 t2 hl h1 h2
+    intro ℓ v1 t1 hl h1
     obtain ⟨n1, ha1, rfl⟩ := evalE_op1 h1
-    obtain ⟨n2, ha2, rfl⟩ := evalE_op1 h2
     have hla : labelE Γ a = some ℓ := by simpa only [labelE] using hl
-    obtain ⟨rfl, hva⟩ := iha _ _ _ _ _ hla ha1 ha2
-    refine ⟨rfl, lowEqV_int ?_⟩
-    intro hj
-    subst hj
-    rw [lowEqV_L_int hva]
+    obtain ⟨va2, ha2, hva⟩ := iha _ _ _ hla ha1
+    obtain ⟨n2, rfl⟩ := lowEqV_int_inv hva
+    refine ⟨.int (evalOp1 o n2), ?_, lowEqV_int ?_⟩
+    · simp only [evalE, ha2]
+    · intro hj
+      subst hj
+      rw [lowEqV_L_int hva]
   | op2 o a b iha ihb =>
-    intro ℓ v1 t1 v2 t2 hl h1 h2
-    obtain ⟨n1, ta1, m1, tb1, r1, ha1, hb1, hr1, rfl, rfl⟩ := evalE_op2 h1
-    obtain ⟨n2, ta2, m2, tb2, r2, ha2, hb2, hr2, rfl, rfl⟩ := evalE_op2 h2
+    intro ℓ v1 t1 hl h1
+    obtain ⟨n1, ta, m1, tb, r1, ha1, hb1, hr1, rfl, rfl⟩ := evalE_op2 h1
     obtain ⟨la, lb, hla, hlb, rfl, hsh⟩ := labelE_op2 hl
-    obtain ⟨rfl, hva⟩ := iha _ _ _ _ _ hla ha1 ha2
-    obtain ⟨rfl, hvb⟩ := ihb _ _ _ _ _ hlb hb1 hb2
-    constructor
-    · cases hs : o.isShift
+    obtain ⟨va2, ha2, hva⟩ := iha _ _ _ hla ha1
+    obtain ⟨vb2, hb2, hvb⟩ := ihb _ _ _ hlb hb1
+    obtain ⟨n2, rfl⟩ := lowEqV_int_inv hva
+    obtain ⟨m2, rfl⟩ := lowEqV_int_inv hvb
+    have hm : o.isShift = true → m1 = m2 := by
+      intro hs
+      have := hsh hs
+      subst this
+      exact lowEqV_L_int hvb
+    obtain ⟨r2, hr2⟩ := evalOp2_shape (n2 := n2) hr1 hm
+    refine ⟨.int r2, ?_, lowEqV_int ?_⟩
+    · simp only [evalE, ha2, hb2, hr2]
+      cases hs : o.isShift
       · simp
-      · have := hsh hs
-        subst this
-        rw [lowEqV_L_int hvb]
-    · apply lowEqV_int
-      intro hj
+      · rw [hm hs]
+    · intro hj
       obtain ⟨rfl, rfl⟩ := join_eq_L hj
       have e1 := lowEqV_L_int hva
       have e2 := lowEqV_L_int hvb
       subst e1; subst e2
       exact Option.some.inj (hr1.symm.trans hr2)
   | op3 o a b c iha ihb ihc =>
-    intro ℓ v1 t1 v2 t2 hl h1 h2
-    obtain ⟨n1, ta1, m1, tb1, k1, tc1, ha1, hb1, hc1, rfl, rfl⟩ := evalE_op3 h1
-    obtain ⟨n2, ta2, m2, tb2, k2, tc2, ha2, hb2, hc2, rfl, rfl⟩ := evalE_op3 h2
+    intro ℓ v1 t1 hl h1
+    obtain ⟨n1, ta, m1, tb, k1, tc, ha1, hb1, hc1, rfl, rfl⟩ := evalE_op3 h1
     obtain ⟨la, lb, lc, hla, hlb, hlc, rfl⟩ := labelE_op3 hl
-    obtain ⟨rfl, hva⟩ := iha _ _ _ _ _ hla ha1 ha2
-    obtain ⟨rfl, hvb⟩ := ihb _ _ _ _ _ hlb hb1 hb2
-    obtain ⟨rfl, hvc⟩ := ihc _ _ _ _ _ hlc hc1 hc2
-    refine ⟨rfl, lowEqV_int ?_⟩
-    intro hj
-    obtain ⟨hj', rfl⟩ := join_eq_L hj
-    obtain ⟨rfl, rfl⟩ := join_eq_L hj'
-    rw [lowEqV_L_int hva, lowEqV_L_int hvb, lowEqV_L_int hvc]
+    obtain ⟨va2, ha2, hva⟩ := iha _ _ _ hla ha1
+    obtain ⟨vb2, hb2, hvb⟩ := ihb _ _ _ hlb hb1
+    obtain ⟨vc2, hc2, hvc⟩ := ihc _ _ _ hlc hc1
+    obtain ⟨n2, rfl⟩ := lowEqV_int_inv hva
+    obtain ⟨m2, rfl⟩ := lowEqV_int_inv hvb
+    obtain ⟨k2, rfl⟩ := lowEqV_int_inv hvc
+    refine ⟨.int (evalOp3 o n2 m2 k2), ?_, lowEqV_int ?_⟩
+    · simp only [evalE, ha2, hb2, hc2]
+    · intro hj
+      obtain ⟨hj', rfl⟩ := join_eq_L hj
+      obtain ⟨rfl, rfl⟩ := join_eq_L hj'
+      rw [lowEqV_L_int hva, lowEqV_L_int hvb, lowEqV_L_int hvc]
+
+/-- the two evaluations of a well-labelled expression: both fail, or both succeed with the same events
+    and values that agree at the label -/
+theorem evalE_rel (G : Nat → Val) {Γ : LEnv} {e1 e2 : Env} (hΓ : lowEqEnv Γ e1 e2) {e : Expr}
+    {ℓ : Label} (hl : labelE Γ e = some ℓ) :
+    (evalE G e1 e = none ∧ evalE G e2 e = none) ∨
+    ∃ v1 v2 t, evalE G e1 e = some (v1, t) ∧ evalE G e2 e = some (v2, t) ∧ lowEqV ℓ v1 v2 := by
+  cases h1 : evalE G e1 e with
+  | some p =>
+    obtain ⟨v1, t⟩ := p
+    obtain ⟨v2, h2, hv⟩ := evalE_fwd G Γ e1 e2 hΓ e ℓ v1 t hl h1
+    exact Or.inr ⟨v1, v2, t, rfl, h2, hv⟩
+  | none =>
+    cases h2 : evalE G e2 e with
+    | none => exact Or.inl ⟨rfl, rfl⟩
+    | some p =>
+      obtain ⟨v2, t⟩ := p
+      obtain ⟨v1, h1', _⟩ := evalE_fwd G Γ e2 e1 (lowEqEnv_symm hΓ) e ℓ v2 t hl h2
+      rw [h1] at h1'
+      cases h1'
 
 /-! ## Lists of values -/
 
@@ -607,27 +820,27 @@ theorem lowEqList_length : ∀ (ls : List Label) (a b : List Val), lowEqList ls 
   | _ :: _, [], _, h => by cases h
   | _ :: _, _ :: _, [], h => by cases h
 
-theorem evalEs_sound (G : Nat → Val) (Γ : LEnv) (e1 e2 : Env) (hΓ : lowEqEnv Γ e1 e2) :
-    ∀ (es : List Expr) (ls : List Label) (vs1 : List Val) (t1 : Trace) (vs2 : List Val) (t2 : Trace),
-      checkEs Γ es ls = true → evalEs G e1 es = some (vs1, t1) → evalEs G e2 es = some (vs2, t2) →
-      t1 = t2 ∧ lowEqList ls vs1 vs2 := by
+theorem evalEs_fwd (G : Nat → Val) (Γ : LEnv) (e1 e2 : Env) (hΓ : lowEqEnv Γ e1 e2) :
+    ∀ (es : List Expr) (ls : List Label) (vs1 : List Val) (t1 : Trace),
+      checkEs Γ es ls = true → evalEs G e1 es = some (vs1, t1) →
+      ∃ vs2, evalEs G e2 es = some (vs2, t1) ∧ lowEqList ls vs1 vs2 := by
   intro es
   induction es with
   | nil =>
-    intro ls vs1 t1 vs2 t2 hc h1 h2
-    simp only [evalEs] at h1 h2
-    cases h1; cases h2
+    intro ls vs1 t1 hc h1
+    simp only [evalEs] at h1 ⊢
+    cases h1
     cases ls with
-    | nil => exact ⟨rfl, trivial⟩
+    | nil => exact ⟨[], rfl, trivial⟩
     | cons l ls => simp [checkEs] at hc
   | cons e es ih =>
-    intro ls vs1 t1 vs2 t2 hc h1 h2
+    intro ls vs1 t1 hc h1
     cases ls with
     | nil => simp [checkEs] at hc
     | cons l ls =>
       simp only [checkEs, Bool.and_eq_true] at hc
       obtain ⟨hce, hces⟩ := hc
-      simp only [evalEs] at h1 h2
+      simp only [evalEs] at h1
       cases he1 : evalE G e1 e with
       | none => simp [he1] at h1
       | some p1 =>
@@ -636,90 +849,107 @@ theorem evalEs_sound (G : Nat → Val) (Γ : LEnv) (e1 e2 : Env) (hΓ : lowEqEnv
         | none => simp [he1, hes1] at h1
         | some q1 =>
           obtain ⟨ws1, us1⟩ := q1
-          cases he2 : evalE G e2 e with
-          | none => simp [he2] at h2
-          | some p2 =>
-            obtain ⟨w2, u2⟩ := p2
-            cases hes2 : evalEs G e2 es with
-            | none => simp [he2, hes2] at h2
-            | some q2 =>
-              obtain ⟨ws2, us2⟩ := q2
-              simp only [he1, hes1, he2, hes2, Option.some.injEq, Prod.mk.injEq] at h1 h2
-              obtain ⟨rfl, rfl⟩ := h1
-              obtain ⟨rfl, rfl⟩ := h2
-              cases hle : labelE Γ e with
-              | none => simp [hle] at hce
-              | some le =>
-                simp only [hle] at hce
-                obtain ⟨rfl, hv⟩ := evalE_sound G Γ e1 e2 hΓ e le _ _ _ _ hle he1 he2
-                obtain ⟨rfl, hvs⟩ := ih ls _ _ _ _ hces hes1 hes2
-                exact ⟨rfl, lowEqV_mono hce hv, hvs⟩
+          simp only [he1, hes1, Option.some.injEq, Prod.mk.injEq] at h1
+          obtain ⟨rfl, rfl⟩ := h1
+          cases hle : labelE Γ e with
+          | none => simp [hle] at hce
+          | some le =>
+            simp only [hle] at hce
+            obtain ⟨w2, he2, hv⟩ := evalE_fwd G Γ e1 e2 hΓ e le _ _ hle he1
+            obtain ⟨ws2, hes2, hvs⟩ := ih ls _ _ hces hes1
+            exact ⟨w2 :: ws2, by simp only [evalEs, he2, hes2], lowEqV_mono hce hv, hvs⟩
 
-theorem evalPath_sound (G : Nat → Val) (Γ : LEnv) (e1 e2 : Env) (hΓ : lowEqEnv Γ e1 e2) :
-    ∀ (p : List PathE) (ks1 : List Nat) (t1 : Trace) (ks2 : List Nat) (t2 : Trace),
-      checkPath Γ p = true → evalPath G e1 p = some (ks1, t1) → evalPath G e2 p = some (ks2, t2) →
-      ks1 = ks2 ∧ t1 = t2 := by
+/-- `checkEs` does not depend on the environments: it can be used in both directions -/
+theorem evalEs_rel (G : Nat → Val) {Γ : LEnv} {e1 e2 : Env} (hΓ : lowEqEnv Γ e1 e2) {es : List Expr}
+    {ls : List Label} (hc : checkEs Γ es ls = true) :
+    (evalEs G e1 es = none ∧ evalEs G e2 es = none) ∨
+    ∃ vs1 vs2 t, evalEs G e1 es = some (vs1, t) ∧ evalEs G e2 es = some (vs2, t) ∧
+      lowEqList ls vs1 vs2 := by
+  cases h1 : evalEs G e1 es with
+  | some p =>
+    obtain ⟨vs1, t⟩ := p
+    obtain ⟨vs2, h2, hv⟩ := evalEs_fwd G Γ e1 e2 hΓ es ls vs1 t hc h1
+    exact Or.inr ⟨vs1, vs2, t, rfl, h2, hv⟩
+  | none =>
+    cases h2 : evalEs G e2 es with
+    | none => exact Or.inl ⟨rfl, rfl⟩
+    | some p =>
+      obtain ⟨vs2, t⟩ := p
+      obtain ⟨vs1, h1', _⟩ := evalEs_fwd G Γ e2 e1 (lowEqEnv_symm hΓ) es ls vs2 t hc h2
+      rw [h1] at h1'
+      cases h1'
+
+theorem evalPath_fwd (G : Nat → Val) (Γ : LEnv) (e1 e2 : Env) (hΓ : lowEqEnv Γ e1 e2) :
+    ∀ (p : List PathE) (ks : List Nat) (t : Trace),
+      checkPath Γ p = true → evalPath G e1 p = some (ks, t) → evalPath G e2 p = some (ks, t) := by
   intro p
   induction p with
   | nil =>
-    intro ks1 t1 ks2 t2 _ h1 h2
-    simp only [evalPath] at h1 h2
-    cases h1; cases h2
-    exact ⟨rfl, rfl⟩
+    intro ks t _ h1
+    simp only [evalPath] at h1 ⊢
+    exact h1
   | cons st p ih =>
-    intro ks1 t1 ks2 t2 hc h1 h2
+    intro ks t hc h1
     cases st with
     | c k =>
       simp only [checkPath] at hc
-      simp only [evalPath] at h1 h2
+      simp only [evalPath] at h1 ⊢
       cases hp1 : evalPath G e1 p with
       | none => simp [hp1] at h1
       | some q1 =>
         obtain ⟨js1, u1⟩ := q1
-        cases hp2 : evalPath G e2 p with
-        | none => simp [hp2] at h2
-        | some q2 =>
-          obtain ⟨js2, u2⟩ := q2
-          simp only [hp1, hp2, Option.some.injEq, Prod.mk.injEq] at h1 h2
-          obtain ⟨rfl, rfl⟩ := h1
-          obtain ⟨rfl, rfl⟩ := h2
-          obtain ⟨rfl, rfl⟩ := ih _ _ _ _ hc hp1 hp2
-          exact ⟨rfl, rfl⟩
+        rw [ih _ _ hc hp1]
+        simpa only [hp1] using h1
     | e i =>
       simp only [checkPath, Bool.and_eq_true, beq_iff_eq] at hc
       obtain ⟨hli, hcp⟩ := hc
-      simp only [evalPath] at h1 h2
+      simp only [evalPath] at h1 ⊢
       cases hi1 : evalE G e1 i with
       | none => simp [hi1] at h1
       | some p1 =>
         obtain ⟨w1, u1⟩ := p1
-        cases hi2 : evalE G e2 i with
-        | none => simp [hi2] at h2
-        | some p2 =>
-          obtain ⟨w2, u2⟩ := p2
-          obtain ⟨rfl, hv⟩ := evalE_sound G Γ e1 e2 hΓ i .L _ _ _ _ hli hi1 hi2
-          have : w1 = w2 := hv
-          subst this
-          cases w1 with
-          | arr l => simp [hi1] at h1
-          | int n =>
-            cases hp1 : evalPath G e1 p with
-            | none => simp [hi1, hp1] at h1
-            | some q1 =>
-              obtain ⟨js1, v1⟩ := q1
-              cases hp2 : evalPath G e2 p with
-              | none => simp [hi2, hp2] at h2
-              | some q2 =>
-                obtain ⟨js2, v2⟩ := q2
-                obtain ⟨rfl, rfl⟩ := ih _ _ _ _ hcp hp1 hp2
-                simp only [hi1, hp1, hi2, hp2] at h1 h2
-                split at h1
-                · cases h1
-                · rename_i hn
-                  rw [if_neg hn] at h2
-                  cases h1; cases h2
-                  exact ⟨rfl, rfl⟩
+        obtain ⟨w2, hi2, hv⟩ := evalE_fwd G Γ e1 e2 hΓ i .L _ _ hli hi1
+        have : w1 = w2 := hv
+        subst this
+        cases hp1 : evalPath G e1 p with
+        | none =>
+          cases w1 <;> simp [hi1, hp1] at h1
+        | some q1 =>
+          obtain ⟨js1, v1⟩ := q1
+          rw [hi2, ih _ _ hcp hp1]
+          simpa only [hi1, hp1] using h1
 
+theorem evalPath_rel (G : Nat → Val) {Γ : LEnv} {e1 e2 : Env} (hΓ : lowEqEnv Γ e1 e2) {p : List PathE}
+    (hc : checkPath Γ p = true) :
+    (evalPath G e1 p = none ∧ evalPath G e2 p = none) ∨
+    ∃ ks t, evalPath G e1 p = some (ks, t) ∧ evalPath G e2 p = some (ks, t) := by
+  cases h1 : evalPath G e1 p with
+  | some q =>
+    obtain ⟨ks, t⟩ := q
+    exact Or.inr ⟨ks, t, rfl, evalPath_fwd G Γ e1 e2 hΓ p ks t hc h1⟩
+  | none =>
+    cases h2 : evalPath G e2 p with
+    | none => exact Or.inl ⟨rfl, rfl⟩
+    | some q =>
+      obtain ⟨ks, t⟩ := q
+      have h1' := evalPath_fwd G Γ e2 e1 (lowEqEnv_symm hΓ) p ks t hc h2
+      rw [h1] at h1'
+      cases h1'
+
+theorem updPath_rel (ks : List Nat) {o1 o2 : Val} (ho : o1.erase = o2.erase) (v1 v2 : Val) :
+    (updPath o1 ks v1 = none ∧ updPath o2 ks v2 = none) ∨
+    ∃ n1 n2, updPath o1 ks v1 = some n1 ∧ updPath o2 ks v2 = some n2 := by
+  cases h1 : updPath o1 ks v1 with
+  | some n1 =>
+    obtain ⟨n2, h2⟩ := updPath_shape ks o1 o2 v1 v2 n1 ho h1
+    exact Or.inr ⟨n1, n2, rfl, h2⟩
+  | none =>
+    cases h2 : updPath o2 ks v2 with
+    | none => exact Or.inl ⟨rfl, rfl⟩
+    | some n2 =>
+      obtain ⟨n1, h1'⟩ := updPath_shape ks o2 o1 v2 v1 n2 ho.symm h2
+      rw [h1] at h1'
+      cases h1'
 
 /-! ## Divergence at a verdict -/
 
@@ -857,450 +1087,478 @@ theorem checkAll_fn {P : Prog} {S : Sigs} (hP : checkAll P S 0 P = true) {g : Na
   exact ⟨h.1.1, h.1.2, h.2⟩
 
 
-/-! ## Inversion of the interpreter -/
+theorem setMany_some : ∀ (lhs : List Nat) (vs : List Val) (e : Env), lhs.length = vs.length →
+    ∃ e', e.setMany lhs vs = some e'
+  | [], [], e, _ => ⟨e, rfl⟩
+  | x :: xs, v :: vs, e, h => by
+    simp only [Env.setMany]
+    exact setMany_some xs vs _ (by simpa using h)
+  | [], _ :: _, _, h => by simp at h
+  | _ :: _, [], _, h => by simp at h
 
-section ExecInv
-variable {P : Prog} {G : Nat → Val} {X : Oracle} {f : Nat} {env : Env} {r : Res}
-
-theorem exec_assign_inv {x : Nat} {p : List PathE} {e : Expr}
-    (h : exec P G X (f + 1) env (.assign x p e) = some r) :
-    ∃ v t1 ks t2 n, evalE G env e = some (v, t1) ∧ evalPath G env p = some (ks, t2) ∧
-      updPath (env x) ks v = some n ∧ r = (env.set x n, .norm, t1 ++ t2) := by
-  simp only [exec] at h
-  split at h
-  · rename_i v t1 ks t2 he hp
-    split at h
-    · rename_i n hn
-      cases h
-      exact ⟨v, t1, ks, t2, n, he, hp, hn, rfl⟩
-    · cases h
-  · cases h
-
-theorem exec_declass_inv {x site : Nat} {e : Expr}
-    (h : exec P G X (f + 1) env (.declass x site e) = some r) :
-    ∃ n t1, evalE G env e = some (.int n, t1) ∧
-      r = (env.set x (.int n), .norm, t1 ++ [.declass site n]) := by
-  simp only [exec] at h
-  split at h
-  · rename_i n t1 he
-    cases h
-    exact ⟨n, t1, he, rfl⟩
-  · cases h
-
-theorem exec_ret_inv {es : List Expr} (h : exec P G X (f + 1) env (.ret es) = some r) :
-    ∃ vs t, evalEs G env es = some (vs, t) ∧ r = (env, .ret vs, t) := by
-  simp only [exec] at h
-  split at h
-  · rename_i vs t he
-    cases h
-    exact ⟨vs, t, he, rfl⟩
-  · cases h
-
-theorem exec_seq_inv {a b : Stmt} (h : exec P G X (f + 1) env (.seq a b) = some r) :
-    ∃ env1 c1 t1, exec P G X f env a = some (env1, c1, t1) ∧ (∃ u, r.2.2 = t1 ++ u) ∧
-      ((c1 = .norm ∧ ∃ env2 c2 t2, exec P G X f env1 b = some (env2, c2, t2) ∧
-          r = (env2, c2, t1 ++ t2)) ∨
-       (c1 ≠ .norm ∧ r = (env1, c1, t1))) := by
-  simp only [exec] at h
-  split at h
-  · rename_i env1 t1 ha
-    split at h
-    · rename_i env2 c2 t2 hb
-      cases h
-      exact ⟨env1, .norm, t1, ha, ⟨t2, rfl⟩, Or.inl ⟨rfl, env2, c2, t2, hb, rfl⟩⟩
-    · cases h
-  · rename_i r' hne ha
-    cases h
-    obtain ⟨env1, c1, t1⟩ := r
-    refine ⟨env1, c1, t1, ha, ⟨[], by simp⟩, Or.inr ⟨?_, rfl⟩⟩
-    intro hc
-    subst hc
-    exact hne _ _ rfl
-  · cases h
-
-theorem exec_ite_inv {c : Expr} {a b : Stmt} (h : exec P G X (f + 1) env (.ite c a b) = some r) :
-    ∃ v t0 d env1 c1 t1, evalE G env c = some (v, t0) ∧ asBool v = some d ∧
-      exec P G X f env (if d then a else b) = some (env1, c1, t1) ∧
-      r = (env1, c1, t0 ++ .branch d :: t1) := by
-  simp only [exec] at h
-  split at h
-  · rename_i v t0 hc
-    split at h
-    · rename_i d hd
-      split at h
-      · rename_i env1 c1 t1 hx
-        cases h
-        exact ⟨v, t0, d, env1, c1, t1, hc, hd, hx, rfl⟩
-      · cases h
-    · cases h
-  · cases h
-
-/-- what a loop does with the control signal of its body: `some c'` = leave the loop with `c'` -/
-def loopExit : Ctl → Option Ctl
-  | .brk => some .norm
-  | .ret vs => some (.ret vs)
-  | .panic => some .panic
-  | _ => none
-
-theorem exec_loop_inv {c : Expr} {body post : Stmt}
-    (h : exec P G X (f + 1) env (.loop c body post) = some r) :
-    ∃ v t0 d, evalE G env c = some (v, t0) ∧ asBool v = some d ∧
-      ((d = false ∧ r = (env, .norm, t0 ++ [.loopc false])) ∨
-       (d = true ∧ ∃ env1 c1 t1, exec P G X f env body = some (env1, c1, t1) ∧
-          (∃ u, r.2.2 = t0 ++ .loopc true :: (t1 ++ u)) ∧
-          ((∃ c', loopExit c1 = some c' ∧ r = (env1, c', t0 ++ .loopc true :: t1)) ∨
-           (loopExit c1 = none ∧ ∃ env2 t2 env3 c3 t3,
-              exec P G X f env1 post = some (env2, .norm, t2) ∧
-              exec P G X f env2 (.loop c body post) = some (env3, c3, t3) ∧
-              r = (env3, c3, t0 ++ .loopc true :: (t1 ++ (t2 ++ t3))))))) := by
-  simp only [exec] at h
-  cases hc : evalE G env c with
-  | none => simp [hc] at h
-  | some q =>
-    obtain ⟨v, t0⟩ := q
-    simp only [hc] at h
-    cases hd : asBool v with
-    | none => simp [hd] at h
-    | some d =>
-      refine ⟨v, t0, d, rfl, hd, ?_⟩
-      cases d with
-      | false =>
-        simp only [hd] at h
-        cases h
-        exact Or.inl ⟨rfl, rfl⟩
-      | true =>
-        simp only [hd] at h
-        refine Or.inr ⟨rfl, ?_⟩
-        cases hb : exec P G X f env body with
-        | none => simp [hb] at h
-        | some q1 =>
-          obtain ⟨env1, c1, t1⟩ := q1
-          refine ⟨env1, c1, t1, rfl, ?_⟩
-          have tail : ∀ (hx : (match exec P G X f env1 post with
-                | some (env2, .norm, t2) =>
-                  match exec P G X f env2 (.loop c body post) with
-                  | some (env3, c3, t3) => some (env3, c3, t0 ++ .loopc true :: (t1 ++ (t2 ++ t3)))
-                  | none => none
-                | _ => none) = some r),
-              ∃ env2 t2 env3 c3 t3,
-                exec P G X f env1 post = some (env2, .norm, t2) ∧
-                exec P G X f env2 (.loop c body post) = some (env3, c3, t3) ∧
-                r = (env3, c3, t0 ++ .loopc true :: (t1 ++ (t2 ++ t3))) := by
-            intro hx
-            split at hx
-            · rename_i env2 t2 hp
-              split at hx
-              · rename_i env3 c3 t3 hl
-                cases hx
-                exact ⟨env2, t2, env3, c3, t3, hp, hl, rfl⟩
-              · cases hx
-            · cases hx
-          cases c1 with
-          | brk =>
-            simp only [hb] at h
-            cases h
-            exact ⟨⟨[], by simp⟩, Or.inl ⟨_, rfl, rfl⟩⟩
-          | ret vs =>
-            simp only [hb] at h
-            cases h
-            exact ⟨⟨[], by simp⟩, Or.inl ⟨_, rfl, rfl⟩⟩
-          | panic =>
-            simp only [hb] at h
-            cases h
-            exact ⟨⟨[], by simp⟩, Or.inl ⟨_, rfl, rfl⟩⟩
-          | norm =>
-            simp only [hb] at h
-            obtain ⟨env2, t2, env3, c3, t3, hp, hl, rfl⟩ := tail h
-            exact ⟨⟨t2 ++ t3, rfl⟩, Or.inr ⟨rfl, env2, t2, env3, c3, t3, hp, hl, rfl⟩⟩
-          | cont =>
-            simp only [hb] at h
-            obtain ⟨env2, t2, env3, c3, t3, hp, hl, rfl⟩ := tail h
-            exact ⟨⟨t2 ++ t3, rfl⟩, Or.inr ⟨rfl, env2, t2, env3, c3, t3, hp, hl, rfl⟩⟩
-
-theorem exec_call_inv {lhs : List Nat} {g : Nat} {args : List Expr}
-    (h : exec P G X (f + 1) env (.call lhs g args) = some r) :
-    ∃ vs t0 fn envc cc t1, evalEs G env args = some (vs, t0) ∧ P[g]? = some fn ∧ fn.stub = false ∧
-      vs.length = fn.nparams ∧ exec P G X f (Env.ofList vs) fn.body = some (envc, cc, t1) ∧
-      r.2.2 = t0 ++ .call g :: t1 ∧
-      ((∃ rs env1, cc = .ret rs ∧ env.setMany lhs rs = some env1 ∧
-          r = (env1, .norm, t0 ++ .call g :: t1)) ∨
-       (cc = .panic ∧ r = (env, .panic, t0 ++ .call g :: t1))) := by
-  simp only [exec] at h
-  split at h
-  · rename_i vs t0 fn he hfn
-    split at h
-    · cases h
-    · rename_i hcond
-      simp only [Bool.or_eq_true, bne_iff_ne, ne_eq, not_or, Bool.not_eq_true, Decidable.not_not]
-        at hcond
-      split at h
-      · rename_i envc rs t1 hx
-        split at h
-        · rename_i env1 hs
-          cases h
-          exact ⟨vs, t0, fn, envc, _, t1, he, hfn, hcond.1, hcond.2, hx, rfl,
-            Or.inl ⟨rs, env1, rfl, hs, rfl⟩⟩
-        · cases h
-      · rename_i envc t1 hx
-        cases h
-        exact ⟨vs, t0, fn, envc, _, t1, he, hfn, hcond.1, hcond.2, hx, rfl, Or.inr ⟨rfl, rfl⟩⟩
-      · cases h
-  · cases h
-
-theorem exec_ext_inv {lhs : List Nat} {name : Nat} {leaky : Bool} {args : List Expr}
-    (h : exec P G X (f + 1) env (.ext lhs name leaky args) = some r) :
-    ∃ vs t0 env1, evalEs G env args = some (vs, t0) ∧ env.setMany lhs (X name vs) = some env1 ∧
-      r = (env1, .norm, t0 ++ [if leaky then .ext name vs else .obs name]) := by
-  simp only [exec] at h
-  split at h
-  · rename_i vs t0 he
-    split at h
-    · rename_i env1 hs
-      cases h
-      exact ⟨vs, t0, env1, he, hs, rfl⟩
-    · cases h
-  · cases h
-
-end ExecInv
+/-- `setMany` is defined exactly when the lengths agree -/
+theorem setMany_rel (lhs : List Nat) {vs1 vs2 : List Val} (hl : vs1.length = vs2.length) (e1 e2 : Env) :
+    (e1.setMany lhs vs1 = none ∧ e2.setMany lhs vs2 = none) ∨
+    ∃ e1' e2', e1.setMany lhs vs1 = some e1' ∧ e2.setMany lhs vs2 = some e2' := by
+  cases h1 : e1.setMany lhs vs1 with
+  | some e1' =>
+    have := setMany_length _ _ _ _ h1
+    obtain ⟨e2', h2⟩ := setMany_some lhs vs2 e2 (this.trans hl)
+    exact Or.inr ⟨e1', e2', rfl, h2⟩
+  | none =>
+    cases h2 : e2.setMany lhs vs2 with
+    | none => exact Or.inl ⟨rfl, rfl⟩
+    | some e2' =>
+      have := setMany_length _ _ _ _ h2
+      obtain ⟨e1', h1'⟩ := setMany_some lhs vs1 e1 (this.trans hl.symm)
+      rw [h1] at h1'
+      cases h1'
 
 
-/-! ## Statements -/
+/-! ## The interpreter, one statement at a time -/
+
+/-- `a; b` from the result of `a` and the run of `b` -/
+def seqK (r : Res) (k : Env → Res) : Res :=
+  match r with
+  | (env1, .norm, t1) =>
+    match k env1 with
+    | (env2, c2, t2) => (env2, c2, t1 ++ t2)
+  | r => r
+
+/-- the end of a round of a loop whose body ended normally (or with `continue`), from the result of
+    the post statement and the run of the rest of the loop -/
+def postK (t0 t1 : Trace) (rp : Res) (kl : Env → Res) : Res :=
+  match rp with
+  | (env2, .norm, t2) =>
+    match kl env2 with
+    | (env3, c3, t3) => (env3, c3, t0 ++ Event.loopc true :: (t1 ++ (t2 ++ t3)))
+  | (env2, _, t2) => (env2, .stuck, t0 ++ Event.loopc true :: (t1 ++ t2))
+
+/-- one round of a loop whose condition holds, from the result of the body, the run of the post
+    statement and the run of the rest of the loop -/
+def loopK (t0 : Trace) (rb : Res) (kp kl : Env → Res) : Res :=
+  match rb with
+  | (env1, .brk, t1) => (env1, .norm, t0 ++ Event.loopc true :: t1)
+  | (env1, .ret vs, t1) => (env1, .ret vs, t0 ++ Event.loopc true :: t1)
+  | (env1, .panic, t1) => (env1, .panic, t0 ++ Event.loopc true :: t1)
+  | (env1, .stuck, t1) => (env1, .stuck, t0 ++ Event.loopc true :: t1)
+  | (env1, _, t1) => postK t0 t1 (kp env1) kl
+
+/-- return from a call, from the result of the callee's body -/
+def callK (env : Env) (lhs : List Nat) (t0 : Trace) (g : Nat) (rc : Res) : Res :=
+  match rc with
+  | (_, .ret rs, t1) =>
+    match env.setMany lhs rs with
+    | some env1 => (env1, .norm, t0 ++ .call g :: t1)
+    | none => (env, .stuck, t0 ++ .call g :: t1)
+  | (_, .panic, t1) => (env, .panic, t0 ++ .call g :: t1)
+  | (_, _, t1) => (env, .stuck, t0 ++ .call g :: t1)
+
+section Unfold
+variable (P : Prog) (G : Nat → Val) (X : Oracle) (f : Nat) (env : Env)
+
+theorem exec_zero (s : Stmt) : exec P G X 0 env s = (env, .stuck, []) := rfl
+
+theorem exec_skip : exec P G X (f + 1) env .skip = (env, .norm, []) := rfl
+
+theorem exec_brk : exec P G X (f + 1) env .brk = (env, .brk, []) := rfl
+
+theorem exec_cont : exec P G X (f + 1) env .cont = (env, .cont, []) := rfl
+
+theorem exec_panic : exec P G X (f + 1) env .panic = (env, .panic, []) := rfl
+
+theorem exec_assign (x : Nat) (p : List PathE) (e : Expr) :
+    exec P G X (f + 1) env (.assign x p e) =
+      match evalE G env e, evalPath G env p with
+      | some (v, t1), some (ks, t2) =>
+        match updPath (env x) ks v with
+        | some n => (env.set x n, .norm, t1 ++ t2)
+        | none => (env, .stuck, [])
+      | _, _ => (env, .stuck, []) := rfl
+
+theorem exec_declass (x site : Nat) (e : Expr) :
+    exec P G X (f + 1) env (.declass x site e) =
+      match evalE G env e with
+      | some (.int n, t1) => (env.set x (.int n), .norm, t1 ++ [.declass site n])
+      | _ => (env, .stuck, []) := rfl
+
+theorem exec_seq (a b : Stmt) :
+    exec P G X (f + 1) env (.seq a b) = seqK (exec P G X f env a) (fun e => exec P G X f e b) := rfl
+
+theorem exec_ite (c : Expr) (a b : Stmt) :
+    exec P G X (f + 1) env (.ite c a b) =
+      match evalE G env c with
+      | some (v, t0) =>
+        match asBool v with
+        | some d =>
+          ((exec P G X f env (if d then a else b)).1, (exec P G X f env (if d then a else b)).2.1,
+            t0 ++ .branch d :: (exec P G X f env (if d then a else b)).2.2)
+        | none => (env, .stuck, [])
+      | none => (env, .stuck, []) := rfl
+
+theorem exec_loop (c : Expr) (body post : Stmt) :
+    exec P G X (f + 1) env (.loop c body post) =
+      match evalE G env c with
+      | some (v, t0) =>
+        match asBool v with
+        | some false => (env, .norm, t0 ++ [.loopc false])
+        | some true =>
+          loopK t0 (exec P G X f env body) (fun e => exec P G X f e post)
+            (fun e => exec P G X f e (.loop c body post))
+        | none => (env, .stuck, [])
+      | none => (env, .stuck, []) := rfl
+
+theorem exec_ret (es : List Expr) :
+    exec P G X (f + 1) env (.ret es) =
+      match evalEs G env es with
+      | some (vs, t) => (env, .ret vs, t)
+      | none => (env, .stuck, []) := rfl
+
+theorem exec_call (lhs : List Nat) (g : Nat) (args : List Expr) :
+    exec P G X (f + 1) env (.call lhs g args) =
+      match evalEs G env args, P[g]? with
+      | some (vs, t0), some fn =>
+        if fn.stub || vs.length != fn.nparams then (env, .stuck, []) else
+        callK env lhs t0 g (exec P G X f (Env.ofList vs) fn.body)
+      | _, _ => (env, .stuck, []) := rfl
+
+theorem exec_ext (lhs : List Nat) (name : Nat) (leaky : Bool) (args : List Expr) :
+    exec P G X (f + 1) env (.ext lhs name leaky args) =
+      match evalEs G env args with
+      | some (vs, t0) =>
+        match env.setMany lhs (X name vs) with
+        | some env1 => (env1, .norm, t0 ++ [if leaky then .ext name vs else .obs name])
+        | none => (env, .stuck, [])
+      | none => (env, .stuck, []) := rfl
+
+end Unfold
+
+
+/-! ## Lockstep: two runs with the same fuel -/
 
 /-- the relation between the results of the two runs -/
 def Concl (Γ : LEnv) (res : List Label) (r1 r2 : Res) : Prop :=
   Div r1.2.2 r2.2.2 ∨ (r1.2.2 = r2.2.2 ∧ lowEqEnv Γ r1.1 r2.1 ∧ CtlRel res r1.2.1 r2.2.1)
 
-/-- the invariant for first runs with fuel `f1` -/
-def SoundAt (P : Prog) (S : Sigs) (G : Nat → Val) (X1 X2 : Oracle) (f1 : Nat) : Prop :=
-  ∀ (f2 : Nat) (Γ : LEnv) (res : List Label) (allowed : List Nat) (s : Stmt) (e1 e2 : Env)
-    (r1 r2 : Res),
+/-- the invariant at fuel `f` -/
+def LockAt (P : Prog) (S : Sigs) (G : Nat → Val) (X1 X2 : Oracle) (f : Nat) : Prop :=
+  ∀ (Γ : LEnv) (res : List Label) (allowed : List Nat) (s : Stmt) (e1 e2 : Env),
     checkS P S Γ res allowed s = true → lowEqEnv Γ e1 e2 →
-    exec P G X1 f1 e1 s = some r1 → exec P G X2 f2 e2 s = some r2 → Concl Γ res r1 r2
+    Concl Γ res (exec P G X1 f e1 s) (exec P G X2 f e2 s)
 
-theorem CtlRel_norm_iff {res : List Label} {c1 c2 : Ctl} (h : CtlRel res c1 c2) :
-    c1 = .norm ↔ c2 = .norm := by
-  cases c1 <;> cases c2 <;> first | exact False.elim h | simp
+theorem Concl.same {Γ : LEnv} {res : List Label} {e1 e2 : Env} (hΓ : lowEqEnv Γ e1 e2) {c1 c2 : Ctl}
+    (hC : CtlRel res c1 c2) (t : Trace) : Concl Γ res (e1, c1, t) (e2, c2, t) :=
+  Or.inr ⟨rfl, hΓ, hC⟩
 
-theorem CtlRel_loopExit {res : List Label} {c1 c2 : Ctl} (h : CtlRel res c1 c2) :
-    (loopExit c1 = none ∧ loopExit c2 = none) ∨
-    ∃ c1' c2', loopExit c1 = some c1' ∧ loopExit c2 = some c2' ∧ CtlRel res c1' c2' := by
-  cases c1 <;> cases c2 <;> first
-    | exact False.elim h
-    | exact Or.inl ⟨rfl, rfl⟩
-    | exact Or.inr ⟨_, _, rfl, rfl, h⟩
-    | exact Or.inr ⟨_, _, rfl, rfl, trivial⟩
+theorem seqK_trace (r : Res) (k : Env → Res) : ∃ u, (seqK r k).2.2 = r.2.2 ++ u := by
+  obtain ⟨env1, c1, t1⟩ := r
+  cases c1 <;> first
+    | exact ⟨(k env1).2.2, rfl⟩
+    | exact ⟨[], (List.append_nil _).symm⟩
 
-section Sound
-variable {P : Prog} {S : Sigs} {G : Nat → Val} {X1 X2 : Oracle} {f1 f2 : Nat} {Γ : LEnv}
-  {res : List Label} {allowed : List Nat} {e1 e2 : Env} {r1 r2 : Res}
+theorem seqK_concl {Γ : LEnv} {res : List Label} {r1 r2 : Res} {k1 k2 : Env → Res}
+    (h : Concl Γ res r1 r2)
+    (hk : ∀ e1 e2, lowEqEnv Γ e1 e2 → Concl Γ res (k1 e1) (k2 e2)) :
+    Concl Γ res (seqK r1 k1) (seqK r2 k2) := by
+  rcases h with hd | ⟨ht, hE, hC⟩
+  · left
+    obtain ⟨u1, hu1⟩ := seqK_trace r1 k1
+    obtain ⟨u2, hu2⟩ := seqK_trace r2 k2
+    rw [hu1, hu2]
+    exact hd.append_right _ _
+  · obtain ⟨env1, c1, t1⟩ := r1
+    obtain ⟨env2, c2, t2⟩ := r2
+    simp only at ht hE hC
+    subst ht
+    cases c1 <;> cases c2 <;> try (exact False.elim hC)
+    · -- norm, norm
+      rcases hk env1 env2 hE with hd | ⟨ht, hE', hC'⟩
+      · left
+        exact hd.append_left t1
+      · right
+        exact ⟨congrArg (t1 ++ ·) ht, hE', hC'⟩
+    all_goals exact Or.inr ⟨rfl, hE, hC⟩
 
-theorem sound_assign {x : Nat} {p : List PathE} {e : Expr}
-    (hc : checkS P S Γ res allowed (.assign x p e) = true) (hΓ : lowEqEnv Γ e1 e2)
-    (h1 : exec P G X1 (f1 + 1) e1 (.assign x p e) = some r1)
-    (h2 : exec P G X2 (f2 + 1) e2 (.assign x p e) = some r2) : Concl Γ res r1 r2 := by
+theorem postK_trace (t0 t1 : Trace) (rp : Res) (kl : Env → Res) :
+    ∃ u, (postK t0 t1 rp kl).2.2 = t0 ++ Event.loopc true :: (t1 ++ (rp.2.2 ++ u)) := by
+  obtain ⟨env2, c2, t2⟩ := rp
+  cases c2 <;> first
+    | exact ⟨(kl env2).2.2, rfl⟩
+    | exact ⟨[], by simp [postK]⟩
+
+theorem loopK_trace (t0 : Trace) (rb : Res) (kp kl : Env → Res) :
+    ∃ u, (loopK t0 rb kp kl).2.2 = t0 ++ Event.loopc true :: (rb.2.2 ++ u) := by
+  obtain ⟨env1, c1, t1⟩ := rb
+  cases c1
+  case norm =>
+    obtain ⟨u, hu⟩ := postK_trace t0 t1 (kp env1) kl
+    exact ⟨_, hu⟩
+  case cont =>
+    obtain ⟨u, hu⟩ := postK_trace t0 t1 (kp env1) kl
+    exact ⟨_, hu⟩
+  all_goals exact ⟨[], by simp [loopK]⟩
+
+theorem postK_concl {Γ : LEnv} {res : List Label} {t0 t1 : Trace} {rp1 rp2 : Res}
+    {kl1 kl2 : Env → Res} (h : Concl Γ res rp1 rp2)
+    (hl : ∀ e1 e2, lowEqEnv Γ e1 e2 → Concl Γ res (kl1 e1) (kl2 e2)) :
+    Concl Γ res (postK t0 t1 rp1 kl1) (postK t0 t1 rp2 kl2) := by
+  rcases h with hd | ⟨ht, hE, hC⟩
+  · left
+    obtain ⟨u1, hu1⟩ := postK_trace t0 t1 rp1 kl1
+    obtain ⟨u2, hu2⟩ := postK_trace t0 t1 rp2 kl2
+    rw [hu1, hu2]
+    exact (((hd.append_right _ _).append_left _).cons _).append_left _
+  · obtain ⟨env1, c1, t21⟩ := rp1
+    obtain ⟨env2, c2, t22⟩ := rp2
+    simp only at ht hE hC
+    subst ht
+    cases c1 <;> cases c2 <;> try (exact False.elim hC)
+    · -- norm, norm: the rest of the loop
+      rcases hl env1 env2 hE with hd | ⟨ht, hE3, hC3⟩
+      · left
+        exact (((hd.append_left _).append_left _).cons _).append_left _
+      · right
+        exact ⟨congrArg (fun u => t0 ++ Event.loopc true :: (t1 ++ (t21 ++ u))) ht, hE3, hC3⟩
+    all_goals exact Or.inr ⟨rfl, hE, trivial⟩
+
+theorem loopK_concl {Γ : LEnv} {res : List Label} {t0 : Trace} {rb1 rb2 : Res}
+    {kp1 kp2 kl1 kl2 : Env → Res}
+    (h : Concl Γ res rb1 rb2)
+    (hp : ∀ e1 e2, lowEqEnv Γ e1 e2 → Concl Γ res (kp1 e1) (kp2 e2))
+    (hl : ∀ e1 e2, lowEqEnv Γ e1 e2 → Concl Γ res (kl1 e1) (kl2 e2)) :
+    Concl Γ res (loopK t0 rb1 kp1 kl1) (loopK t0 rb2 kp2 kl2) := by
+  rcases h with hd | ⟨ht, hE, hC⟩
+  · left
+    obtain ⟨u1, hu1⟩ := loopK_trace t0 rb1 kp1 kl1
+    obtain ⟨u2, hu2⟩ := loopK_trace t0 rb2 kp2 kl2
+    rw [hu1, hu2]
+    exact ((hd.append_right _ _).cons _).append_left _
+  · obtain ⟨env1, c1, t1⟩ := rb1
+    obtain ⟨env2, c2, t2⟩ := rb2
+    simp only at ht hE hC
+    subst ht
+    have tail : Concl Γ res (postK t0 t1 (kp1 env1) kl1) (postK t0 t1 (kp2 env2) kl2) :=
+      postK_concl (hp env1 env2 hE) hl
+    cases c1 <;> cases c2 <;> try (exact False.elim hC)
+    · exact tail
+    · exact Or.inr ⟨rfl, hE, trivial⟩
+    · exact tail
+    · exact Or.inr ⟨rfl, hE, hC⟩
+    · exact Or.inr ⟨rfl, hE, trivial⟩
+    · exact Or.inr ⟨rfl, hE, trivial⟩
+
+theorem callK_trace (env : Env) (lhs : List Nat) (t0 : Trace) (g : Nat) (rc : Res) :
+    (callK env lhs t0 g rc).2.2 = t0 ++ .call g :: rc.2.2 := by
+  obtain ⟨envc, cc, t1⟩ := rc
+  cases cc <;> try rfl
+  simp only [callK]
+  split <;> rfl
+
+theorem callK_concl {Γ : LEnv} {res rl : List Label} {e1 e2 : Env} {lhs : List Nat} {t0 : Trace}
+    {g : Nat} {rc1 rc2 : Res}
+    (h : Div rc1.2.2 rc2.2.2 ∨ (rc1.2.2 = rc2.2.2 ∧ CtlRel rl rc1.2.1 rc2.2.1))
+    (hlhs : checkLhs Γ lhs rl = true) (hΓ : lowEqEnv Γ e1 e2) :
+    Concl Γ res (callK e1 lhs t0 g rc1) (callK e2 lhs t0 g rc2) := by
+  rcases h with hd | ⟨ht, hC⟩
+  · left
+    rw [callK_trace, callK_trace]
+    exact (hd.cons _).append_left _
+  · obtain ⟨envc1, cc1, t1⟩ := rc1
+    obtain ⟨envc2, cc2, t2⟩ := rc2
+    simp only at ht hC
+    subst ht
+    cases cc1 <;> cases cc2 <;> try (exact False.elim hC)
+    case ret.ret rs1 rs2 =>
+      have hC' : lowEqList rl rs1 rs2 := hC
+      obtain ⟨hl1, hl2⟩ := lowEqList_length _ _ _ hC'
+      rcases setMany_rel lhs (hl1.trans hl2.symm) e1 e2 with ⟨h1, h2⟩ | ⟨e1', e2', h1, h2⟩
+      · simp only [callK, h1, h2]
+        exact Or.inr ⟨rfl, hΓ, trivial⟩
+      · simp only [callK, h1, h2]
+        exact Or.inr ⟨rfl, lowEqEnv_setMany lhs rl rs1 rs2 _ _ _ _ hlhs hC' hΓ h1 h2, trivial⟩
+    all_goals exact Or.inr ⟨rfl, hΓ, trivial⟩
+
+section Lock
+variable {P : Prog} {S : Sigs} {G : Nat → Val} {X1 X2 : Oracle} {f : Nat} {Γ : LEnv}
+  {res : List Label} {allowed : List Nat} {e1 e2 : Env}
+
+theorem lock_stuck (hΓ : lowEqEnv Γ e1 e2) : Concl Γ res (e1, .stuck, []) (e2, .stuck, []) :=
+  Or.inr ⟨rfl, hΓ, trivial⟩
+
+theorem lock_assign {x : Nat} {p : List PathE} {e : Expr}
+    (hc : checkS P S Γ res allowed (.assign x p e) = true) (hΓ : lowEqEnv Γ e1 e2) :
+    Concl Γ res (exec P G X1 (f + 1) e1 (.assign x p e)) (exec P G X2 (f + 1) e2 (.assign x p e)) := by
   simp only [checkS, Bool.and_eq_true] at hc
   obtain ⟨hcp, hce⟩ := hc
-  obtain ⟨v1, t1, ks1, u1, n1, he1, hp1, hu1, rfl⟩ := exec_assign_inv h1
-  obtain ⟨v2, t2, ks2, u2, n2, he2, hp2, hu2, rfl⟩ := exec_assign_inv h2
   cases hle : labelE Γ e with
   | none => simp [hle] at hce
   | some le =>
     simp only [hle] at hce
-    obtain ⟨rfl, hv⟩ := evalE_sound G Γ e1 e2 hΓ e le _ _ _ _ hle he1 he2
-    obtain ⟨rfl, rfl⟩ := evalPath_sound G Γ e1 e2 hΓ p _ _ _ _ hcp hp1 hp2
-    right
-    refine ⟨rfl, lowEqEnv_set hΓ x ?_, trivial⟩
-    have hv' := lowEqV_mono hce hv
-    have hx := hΓ x
-    generalize Γ.get x = lx at hv' hx ⊢
-    cases lx
-    · have ev : v1 = v2 := hv'
-      have ex : e1 x = e2 x := hx
-      rw [ev, ex] at hu1
-      exact Option.some.inj (hu1.symm.trans hu2)
-    · exact erase_updPath ks1 _ _ _ _ _ _ hx hv' hu1 hu2
+    rw [exec_assign, exec_assign]
+    rcases evalPath_rel G hΓ hcp with ⟨hp1, hp2⟩ | ⟨ks, u, hp1, hp2⟩
+    · rcases evalE_rel G hΓ hle with ⟨h1, h2⟩ | ⟨v1, v2, t, h1, h2, hv⟩
+      · simp only [h1, h2, hp1, hp2]
+        exact lock_stuck hΓ
+      · simp only [h1, h2, hp1, hp2]
+        exact lock_stuck hΓ
+    · rcases evalE_rel G hΓ hle with ⟨h1, h2⟩ | ⟨v1, v2, t, h1, h2, hv⟩
+      · simp only [h1, h2, hp1, hp2]
+        exact lock_stuck hΓ
+      · have hv' := lowEqV_mono hce hv
+        have hx := hΓ x
+        rcases updPath_rel ks (lowEqV_erase hx) v1 v2 with ⟨hu1, hu2⟩ | ⟨n1, n2, hu1, hu2⟩
+        · simp only [h1, h2, hp1, hp2, hu1, hu2]
+          exact lock_stuck hΓ
+        · simp only [h1, h2, hp1, hp2, hu1, hu2]
+          right
+          refine ⟨rfl, lowEqEnv_set hΓ x ?_, trivial⟩
+          generalize Γ.get x = lx at hv' hx ⊢
+          cases lx
+          · have ev : v1 = v2 := hv'
+            have ex : e1 x = e2 x := hx
+            rw [ev, ex] at hu1
+            exact Option.some.inj (hu1.symm.trans hu2)
+          · exact erase_updPath ks _ _ _ _ _ _ hx hv' hu1 hu2
 
-theorem sound_declass {x site : Nat} {e : Expr}
-    (hc : checkS P S Γ res allowed (.declass x site e) = true) (hΓ : lowEqEnv Γ e1 e2)
-    (h1 : exec P G X1 (f1 + 1) e1 (.declass x site e) = some r1)
-    (h2 : exec P G X2 (f2 + 1) e2 (.declass x site e) = some r2) : Concl Γ res r1 r2 := by
+theorem lock_declass {x site : Nat} {e : Expr}
+    (hc : checkS P S Γ res allowed (.declass x site e) = true) (hΓ : lowEqEnv Γ e1 e2) :
+    Concl Γ res (exec P G X1 (f + 1) e1 (.declass x site e))
+      (exec P G X2 (f + 1) e2 (.declass x site e)) := by
   simp only [checkS, Bool.and_eq_true] at hc
   obtain ⟨⟨_, hsome⟩, _⟩ := hc
-  obtain ⟨n1, t1, he1, rfl⟩ := exec_declass_inv h1
-  obtain ⟨n2, t2, he2, rfl⟩ := exec_declass_inv h2
   cases hle : labelE Γ e with
   | none => simp [hle] at hsome
   | some le =>
-    obtain ⟨rfl, _⟩ := evalE_sound G Γ e1 e2 hΓ e le _ _ _ _ hle he1 he2
-    by_cases hn : n1 = n2
-    · subst hn
-      right
-      exact ⟨rfl, lowEqEnv_set hΓ x (lowEqV_refl _ _), trivial⟩
-    · left
-      exact ⟨t1, site, n1, n2, [], [], hn, rfl, rfl⟩
-
-theorem sound_ret {es : List Expr}
-    (hc : checkS P S Γ res allowed (.ret es) = true) (hΓ : lowEqEnv Γ e1 e2)
-    (h1 : exec P G X1 (f1 + 1) e1 (.ret es) = some r1)
-    (h2 : exec P G X2 (f2 + 1) e2 (.ret es) = some r2) : Concl Γ res r1 r2 := by
-  simp only [checkS] at hc
-  obtain ⟨vs1, t1, he1, rfl⟩ := exec_ret_inv h1
-  obtain ⟨vs2, t2, he2, rfl⟩ := exec_ret_inv h2
-  obtain ⟨rfl, hvs⟩ := evalEs_sound G Γ e1 e2 hΓ es res _ _ _ _ hc he1 he2
-  right
-  exact ⟨rfl, hΓ, hvs⟩
-
-theorem sound_seq (ih : SoundAt P S G X1 X2 f1) {a b : Stmt}
-    (hc : checkS P S Γ res allowed (.seq a b) = true) (hΓ : lowEqEnv Γ e1 e2)
-    (h1 : exec P G X1 (f1 + 1) e1 (.seq a b) = some r1)
-    (h2 : exec P G X2 (f2 + 1) e2 (.seq a b) = some r2) : Concl Γ res r1 r2 := by
-  simp only [checkS, Bool.and_eq_true] at hc
-  obtain ⟨env1, c1, t1, ha1, ⟨u1, hu1⟩, hr1⟩ := exec_seq_inv h1
-  obtain ⟨env2, c2, t2, ha2, ⟨u2, hu2⟩, hr2⟩ := exec_seq_inv h2
-  rcases ih f2 Γ res allowed a e1 e2 _ _ hc.1 hΓ ha1 ha2 with hd | ⟨ht, hE, hC⟩
-  · left
-    rw [hu1, hu2]
-    exact hd.append_right _ _
-  · simp only at ht hE hC
-    subst ht
-    have hnn := CtlRel_norm_iff hC
-    rcases hr1 with ⟨hn1, env1', c1', t1', hb1, rfl⟩ | ⟨hn1, rfl⟩
-    · rcases hr2 with ⟨_, env2', c2', t2', hb2, rfl⟩ | ⟨hn2, _⟩
-      · rcases ih f2 Γ res allowed b env1 env2 _ _ hc.2 hE hb1 hb2 with hd | ⟨ht, hE', hC'⟩
+    rw [exec_declass, exec_declass]
+    rcases evalE_rel G hΓ hle with ⟨h1, h2⟩ | ⟨v1, v2, t, h1, h2, hv⟩
+    · simp only [h1, h2]
+      exact lock_stuck hΓ
+    · cases v1 with
+      | arr l1 =>
+        obtain ⟨l2, rfl⟩ := lowEqV_arr_inv hv
+        simp only [h1, h2]
+        exact lock_stuck hΓ
+      | int n1 =>
+        obtain ⟨n2, rfl⟩ := lowEqV_int_inv hv
+        simp only [h1, h2]
+        by_cases hn : n1 = n2
+        · subst hn
+          right
+          exact ⟨rfl, lowEqEnv_set hΓ x (lowEqV_refl _ _), trivial⟩
         · left
-          exact hd.append_left _
-        · right
-          simp only at ht hE' hC' ⊢
-          subst ht
-          exact ⟨rfl, hE', hC'⟩
-      · exact absurd (hnn.1 hn1) hn2
-    · rcases hr2 with ⟨hn2, _⟩ | ⟨_, rfl⟩
-      · exact absurd (hnn.2 hn2) hn1
-      · right
-        exact ⟨rfl, hE, hC⟩
+          exact ⟨t, site, n1, n2, [], [], hn, rfl, rfl⟩
 
-theorem sound_ite (ih : SoundAt P S G X1 X2 f1) {c : Expr} {a b : Stmt}
-    (hc : checkS P S Γ res allowed (.ite c a b) = true) (hΓ : lowEqEnv Γ e1 e2)
-    (h1 : exec P G X1 (f1 + 1) e1 (.ite c a b) = some r1)
-    (h2 : exec P G X2 (f2 + 1) e2 (.ite c a b) = some r2) : Concl Γ res r1 r2 := by
+theorem lock_ret {es : List Expr}
+    (hc : checkS P S Γ res allowed (.ret es) = true) (hΓ : lowEqEnv Γ e1 e2) :
+    Concl Γ res (exec P G X1 (f + 1) e1 (.ret es)) (exec P G X2 (f + 1) e2 (.ret es)) := by
+  simp only [checkS] at hc
+  rw [exec_ret, exec_ret]
+  rcases evalEs_rel G hΓ hc with ⟨h1, h2⟩ | ⟨vs1, vs2, t, h1, h2, hvs⟩
+  · simp only [h1, h2]
+    exact lock_stuck hΓ
+  · simp only [h1, h2]
+    exact Or.inr ⟨rfl, hΓ, hvs⟩
+
+theorem lock_seq (ih : LockAt P S G X1 X2 f) {a b : Stmt}
+    (hc : checkS P S Γ res allowed (.seq a b) = true) (hΓ : lowEqEnv Γ e1 e2) :
+    Concl Γ res (exec P G X1 (f + 1) e1 (.seq a b)) (exec P G X2 (f + 1) e2 (.seq a b)) := by
+  simp only [checkS, Bool.and_eq_true] at hc
+  rw [exec_seq, exec_seq]
+  exact seqK_concl (ih Γ res allowed a e1 e2 hc.1 hΓ)
+    (fun e1' e2' hΓ' => ih Γ res allowed b e1' e2' hc.2 hΓ')
+
+theorem lock_ite (ih : LockAt P S G X1 X2 f) {c : Expr} {a b : Stmt}
+    (hc : checkS P S Γ res allowed (.ite c a b) = true) (hΓ : lowEqEnv Γ e1 e2) :
+    Concl Γ res (exec P G X1 (f + 1) e1 (.ite c a b)) (exec P G X2 (f + 1) e2 (.ite c a b)) := by
   simp only [checkS, Bool.and_eq_true, beq_iff_eq] at hc
   obtain ⟨⟨hlc, hca⟩, hcb⟩ := hc
-  obtain ⟨v1, t01, d1, env1, c1, t1, hc1, hd1, hx1, rfl⟩ := exec_ite_inv h1
-  obtain ⟨v2, t02, d2, env2, c2, t2, hc2, hd2, hx2, rfl⟩ := exec_ite_inv h2
-  obtain ⟨rfl, hv⟩ := evalE_sound G Γ e1 e2 hΓ c .L _ _ _ _ hlc hc1 hc2
-  have ev : v1 = v2 := hv
-  subst ev
-  have ed : d1 = d2 := Option.some.inj (hd1.symm.trans hd2)
-  subst ed
-  have hcs : checkS P S Γ res allowed (if d1 then a else b) = true := by
-    cases d1
-    · simpa using hcb
-    · simpa using hca
-  rcases ih f2 Γ res allowed _ e1 e2 _ _ hcs hΓ hx1 hx2 with hd | ⟨ht, hE, hC⟩
-  · left
-    exact (hd.cons _).append_left _
-  · right
-    simp only at ht hE hC ⊢
-    subst ht
-    exact ⟨rfl, hE, hC⟩
+  rw [exec_ite, exec_ite]
+  rcases evalE_rel G hΓ hlc with ⟨h1, h2⟩ | ⟨v1, v2, t, h1, h2, hv⟩
+  · simp only [h1, h2]
+    exact lock_stuck hΓ
+  · have ev : v1 = v2 := hv
+    subst ev
+    simp only [h1, h2]
+    cases hd : asBool v1 with
+    | none => exact lock_stuck hΓ
+    | some d =>
+      have hcs : checkS P S Γ res allowed (if d then a else b) = true := by
+        cases d
+        · simpa using hcb
+        · simpa using hca
+      rcases ih Γ res allowed _ e1 e2 hcs hΓ with hd | ⟨ht, hE, hC⟩
+      · left
+        exact (hd.cons _).append_left _
+      · right
+        exact ⟨congrArg (fun u => t ++ Event.branch d :: u) ht, hE, hC⟩
 
-theorem sound_loop (ih : SoundAt P S G X1 X2 f1) {c : Expr} {body post : Stmt}
-    (hc0 : checkS P S Γ res allowed (.loop c body post) = true) (hΓ : lowEqEnv Γ e1 e2)
-    (h1 : exec P G X1 (f1 + 1) e1 (.loop c body post) = some r1)
-    (h2 : exec P G X2 (f2 + 1) e2 (.loop c body post) = some r2) : Concl Γ res r1 r2 := by
+theorem lock_loop (ih : LockAt P S G X1 X2 f) {c : Expr} {body post : Stmt}
+    (hc0 : checkS P S Γ res allowed (.loop c body post) = true) (hΓ : lowEqEnv Γ e1 e2) :
+    Concl Γ res (exec P G X1 (f + 1) e1 (.loop c body post))
+      (exec P G X2 (f + 1) e2 (.loop c body post)) := by
   have hc := hc0
   simp only [checkS, Bool.and_eq_true, beq_iff_eq] at hc
   obtain ⟨⟨hlc, hcb⟩, hcp⟩ := hc
-  obtain ⟨v1, t01, d1, hc1, hd1, hr1⟩ := exec_loop_inv h1
-  obtain ⟨v2, t02, d2, hc2, hd2, hr2⟩ := exec_loop_inv h2
-  obtain ⟨rfl, hv⟩ := evalE_sound G Γ e1 e2 hΓ c .L _ _ _ _ hlc hc1 hc2
-  have ev : v1 = v2 := hv
-  subst ev
-  have ed : d1 = d2 := Option.some.inj (hd1.symm.trans hd2)
-  subst ed
-  rcases hr1 with ⟨hf1, rfl⟩ | ⟨ht1, env1, c1, t1, hb1, ⟨u1, hu1⟩, hk1⟩
-  · rcases hr2 with ⟨_, rfl⟩ | ⟨ht2, _⟩
-    · right
-      exact ⟨rfl, hΓ, trivial⟩
-    · rw [hf1] at ht2; cases ht2
-  · rcases hr2 with ⟨hf2, _⟩ | ⟨_, env2, c2, t2, hb2, ⟨u2, hu2⟩, hk2⟩
-    · rw [ht1] at hf2; cases hf2
-    · rcases ih f2 Γ res allowed body e1 e2 _ _ hcb hΓ hb1 hb2 with hd | ⟨ht, hE, hC⟩
-      · left
-        rw [hu1, hu2]
-        exact ((hd.append_right _ _).cons _).append_left _
-      · simp only at ht hE hC
-        subst ht
-        rcases CtlRel_loopExit hC with ⟨hn1, hn2⟩ | ⟨c1', c2', he1, he2, hC'⟩
-        · rcases hk1 with ⟨c', he, _⟩ | ⟨_, env12, t12, env13, c13, t13, hp1, hl1, rfl⟩
-          · rw [hn1] at he; cases he
-          · rcases hk2 with ⟨c', he, _⟩ | ⟨_, env22, t22, env23, c23, t23, hp2, hl2, rfl⟩
-            · rw [hn2] at he; cases he
-            · rcases ih f2 Γ res allowed post env1 env2 _ _ hcp hE hp1 hp2 with
-                hd | ⟨ht, hE2, hC2⟩
-              · left
-                exact (((hd.append_right _ _).append_left _).cons _).append_left _
-              · simp only at ht hE2 hC2
-                subst ht
-                rcases ih f2 Γ res allowed (.loop c body post) env12 env22 _ _ hc0 hE2 hl1 hl2 with
-                  hd | ⟨ht, hE3, hC3⟩
-                · left
-                  exact (((hd.append_left _).append_left _).cons _).append_left _
-                · right
-                  simp only at ht hE3 hC3 ⊢
-                  subst ht
-                  exact ⟨rfl, hE3, hC3⟩
-        · rcases hk1 with ⟨c', he, rfl⟩ | ⟨hn, _⟩
-          · rw [he1] at he; cases he
-            rcases hk2 with ⟨c'', he', rfl⟩ | ⟨hn, _⟩
-            · rw [he2] at he'; cases he'
-              right
-              exact ⟨rfl, hE, hC'⟩
-            · rw [he2] at hn; cases hn
-          · rw [he1] at hn; cases hn
+  rw [exec_loop, exec_loop]
+  rcases evalE_rel G hΓ hlc with ⟨h1, h2⟩ | ⟨v1, v2, t, h1, h2, hv⟩
+  · simp only [h1, h2]
+    exact lock_stuck hΓ
+  · have ev : v1 = v2 := hv
+    subst ev
+    simp only [h1, h2]
+    cases hd : asBool v1 with
+    | none => exact lock_stuck hΓ
+    | some d =>
+      cases d with
+      | false => exact Or.inr ⟨rfl, hΓ, trivial⟩
+      | true =>
+        exact loopK_concl (ih Γ res allowed body e1 e2 hcb hΓ)
+          (fun e1' e2' hΓ' => ih Γ res allowed post e1' e2' hcp hΓ')
+          (fun e1' e2' hΓ' => ih Γ res allowed (.loop c body post) e1' e2' hc0 hΓ')
 
-theorem sound_call (hP : checkAll P S 0 P = true) (ih : SoundAt P S G X1 X2 f1)
+theorem lock_call (hP : checkAll P S 0 P = true) (ih : LockAt P S G X1 X2 f)
     {lhs : List Nat} {g : Nat} {args : List Expr}
-    (hc : checkS P S Γ res allowed (.call lhs g args) = true) (hΓ : lowEqEnv Γ e1 e2)
-    (h1 : exec P G X1 (f1 + 1) e1 (.call lhs g args) = some r1)
-    (h2 : exec P G X2 (f2 + 1) e2 (.call lhs g args) = some r2) : Concl Γ res r1 r2 := by
+    (hc : checkS P S Γ res allowed (.call lhs g args) = true) (hΓ : lowEqEnv Γ e1 e2) :
+    Concl Γ res (exec P G X1 (f + 1) e1 (.call lhs g args))
+      (exec P G X2 (f + 1) e2 (.call lhs g args)) := by
   simp only [checkS] at hc
-  obtain ⟨vs1, t01, fn1, envc1, cc1, t1, hev1, hfn1, hst1, hlen1, hx1, htr1, hr1⟩ := exec_call_inv h1
-  obtain ⟨vs2, t02, fn2, envc2, cc2, t2, hev2, hfn2, hst2, hlen2, hx2, htr2, hr2⟩ := exec_call_inv h2
-  have efn : fn1 = fn2 := Option.some.inj (hfn1.symm.trans hfn2)
-  subst efn
   cases hfs : S.fn[g]? with
   | none => simp [hfs] at hc
   | some fs =>
-    simp only [hfs, hfn1, Bool.and_eq_true] at hc
-    obtain ⟨⟨_, hargs⟩, hlhs⟩ := hc
-    obtain ⟨rfl, hvs⟩ := evalEs_sound G Γ e1 e2 hΓ args fs.params _ _ _ _ hargs hev1 hev2
-    obtain ⟨hpl, htake, hbody⟩ := checkAll_fn hP hfn1 hfs hst1
-    have hΓ' := lowEqEnv_ofList (gammaOf S fs fn1) fs.params fn1.nparams htake hpl vs1 vs2 hvs
-    rcases ih f2 _ fs.results fs.declass fn1.body _ _ _ _ hbody hΓ' hx1 hx2 with hd | ⟨ht, _, hC⟩
-    · left
-      rw [htr1, htr2]
-      exact (hd.cons _).append_left _
-    · simp only at ht hC
-      subst ht
-      rcases hr1 with ⟨rs1, env1, rfl, hs1, rfl⟩ | ⟨rfl, rfl⟩
-      · rcases hr2 with ⟨rs2, env2, rfl, hs2, rfl⟩ | ⟨rfl, _⟩
-        · right
-          exact ⟨rfl, lowEqEnv_setMany lhs fs.results rs1 rs2 _ _ _ _ hlhs hC hΓ hs1 hs2, trivial⟩
-        · exact False.elim hC
-      · rcases hr2 with ⟨rs2, env2, rfl, _, _⟩ | ⟨rfl, rfl⟩
-        · exact False.elim hC
-        · right
-          exact ⟨rfl, hΓ, trivial⟩
+    cases hfn : P[g]? with
+    | none => simp [hfs, hfn] at hc
+    | some fn =>
+      simp only [hfs, hfn, Bool.and_eq_true, Bool.not_eq_true'] at hc
+      obtain ⟨⟨hst, hargs⟩, hlhs⟩ := hc
+      rw [exec_call, exec_call]
+      rcases evalEs_rel G hΓ hargs with ⟨h1, h2⟩ | ⟨vs1, vs2, t, h1, h2, hvs⟩
+      · simp only [h1, h2, hfn]
+        exact lock_stuck hΓ
+      · simp only [h1, h2, hfn]
+        obtain ⟨hl1, hl2⟩ := lowEqList_length _ _ _ hvs
+        obtain ⟨hpl, htake, hbody⟩ := checkAll_fn hP hfn hfs hst
+        by_cases hlen : vs1.length = fn.nparams
+        · have hlen2 : vs2.length = fn.nparams := by rw [hl2, ← hl1]; exact hlen
+          have c1 : (fn.stub || vs1.length != fn.nparams) = false := by simp [hst, hlen]
+          have c2 : (fn.stub || vs2.length != fn.nparams) = false := by simp [hst, hlen2]
+          simp only [c1, c2, Bool.false_eq_true, if_false]
+          have hΓ' := lowEqEnv_ofList (gammaOf S fs fn) fs.params fn.nparams htake hpl vs1 vs2 hvs
+          apply callK_concl (rl := fs.results) _ hlhs hΓ
+          rcases ih _ fs.results fs.declass fn.body _ _ hbody hΓ' with hd | ⟨ht, _, hC⟩
+          · exact Or.inl hd
+          · exact Or.inr ⟨ht, hC⟩
+        · have hlen2 : ¬ vs2.length = fn.nparams := by rw [hl2, ← hl1]; exact hlen
+          have c1 : (fn.stub || vs1.length != fn.nparams) = true := by simp [hlen]
+          have c2 : (fn.stub || vs2.length != fn.nparams) = true := by simp [hlen2]
+          simp only [c1, c2, if_true]
+          exact lock_stuck hΓ
 
-theorem sound_ext (hX : OracleRel S X1 X2) {lhs : List Nat} {name : Nat} {leaky : Bool}
+theorem lock_ext (hX : OracleRel S X1 X2) {lhs : List Nat} {name : Nat} {leaky : Bool}
     {args : List Expr}
-    (hc : checkS P S Γ res allowed (.ext lhs name leaky args) = true) (hΓ : lowEqEnv Γ e1 e2)
-    (h1 : exec P G X1 (f1 + 1) e1 (.ext lhs name leaky args) = some r1)
-    (h2 : exec P G X2 (f2 + 1) e2 (.ext lhs name leaky args) = some r2) : Concl Γ res r1 r2 := by
+    (hc : checkS P S Γ res allowed (.ext lhs name leaky args) = true) (hΓ : lowEqEnv Γ e1 e2) :
+    Concl Γ res (exec P G X1 (f + 1) e1 (.ext lhs name leaky args))
+      (exec P G X2 (f + 1) e2 (.ext lhs name leaky args)) := by
   simp only [checkS] at hc
-  obtain ⟨vs1, t01, env1, hev1, hs1, rfl⟩ := exec_ext_inv h1
-  obtain ⟨vs2, t02, env2, hev2, hs2, rfl⟩ := exec_ext_inv h2
   cases hrl : S.ext[name]? with
   | none => simp [hrl] at hc
   | some rl =>
@@ -1308,123 +1566,355 @@ theorem sound_ext (hX : OracleRel S X1 X2) {lhs : List Nat} {name : Nat} {leaky 
     obtain ⟨hlhs, hargs⟩ := hc
     have hgetD : S.ext.getD name [] = rl := by
       rw [List.getD_eq_getElem?_getD, hrl]; rfl
-    cases leaky with
-    | true =>
-      simp only [if_true] at hargs
-      obtain ⟨rfl, hvs⟩ := evalEs_sound G Γ e1 e2 hΓ args _ _ _ _ _ hargs hev1 hev2
-      have evs := lowEqList_allL _ _ _ hvs
-      subst evs
-      have hres := hX.1 name vs1
-      rw [hgetD] at hres
-      right
-      exact ⟨rfl, lowEqEnv_setMany lhs rl _ _ _ _ _ _ hlhs hres hΓ hs1 hs2, trivial⟩
-    | false =>
-      simp only [Bool.false_eq_true, if_false, Bool.and_eq_true] at hargs
-      obtain ⟨hargs, hallH⟩ := hargs
-      obtain ⟨rfl, hvs⟩ := evalEs_sound G Γ e1 e2 hΓ args _ _ _ _ _ hargs hev1 hev2
-      have he := hX.2 name vs1 vs2 (lowEqList_eraseL _ _ _ hvs)
-      have hlen : (X1 name vs1).length = rl.length := by
-        rw [← setMany_length _ _ _ _ hs1, checkLhs_length _ _ hlhs]
-      have hres := lowEqList_allH rl _ _ hallH he hlen
-      right
-      exact ⟨rfl, lowEqEnv_setMany lhs rl _ _ _ _ _ _ hlhs hres hΓ hs1 hs2, trivial⟩
+    rw [exec_ext, exec_ext]
+    -- the arguments agree well enough for the results to agree at the declared labels
+    have key : (evalEs G e1 args = none ∧ evalEs G e2 args = none) ∨
+        ∃ vs1 vs2 t, evalEs G e1 args = some (vs1, t) ∧ evalEs G e2 args = some (vs2, t) ∧
+          (if leaky then Event.ext name vs1 else Event.obs name) =
+            (if leaky then Event.ext name vs2 else Event.obs name) ∧
+          (X1 name vs1).length = (X2 name vs2).length ∧
+          ((X1 name vs1).length = rl.length → lowEqList rl (X1 name vs1) (X2 name vs2)) := by
+      cases leaky with
+      | true =>
+        simp only [if_true] at hargs
+        rcases evalEs_rel G hΓ hargs with ⟨h1, h2⟩ | ⟨vs1, vs2, t, h1, h2, hvs⟩
+        · exact Or.inl ⟨h1, h2⟩
+        · have evs := lowEqList_allL _ _ _ hvs
+          subst evs
+          have hres := hX.1 name vs1
+          rw [hgetD] at hres
+          obtain ⟨hl1, hl2⟩ := lowEqList_length _ _ _ hres
+          exact Or.inr ⟨vs1, vs1, t, h1, h2, rfl, hl1.trans hl2.symm, fun _ => hres⟩
+      | false =>
+        simp only [Bool.false_eq_true, if_false, Bool.and_eq_true] at hargs
+        obtain ⟨hargs, hallH⟩ := hargs
+        rcases evalEs_rel G hΓ hargs with ⟨h1, h2⟩ | ⟨vs1, vs2, t, h1, h2, hvs⟩
+        · exact Or.inl ⟨h1, h2⟩
+        · have he := hX.2 name vs1 vs2 (by rw [hgetD]; exact hallH) (lowEqList_eraseL _ _ _ hvs)
+          exact Or.inr ⟨vs1, vs2, t, h1, h2, rfl, eraseL_length he,
+            fun hlen => lowEqList_allH rl _ _ hallH he hlen⟩
+    rcases key with ⟨h1, h2⟩ | ⟨vs1, vs2, t, h1, h2, hev, hlen, hres⟩
+    · simp only [h1, h2]
+      exact lock_stuck hΓ
+    · simp only [h1, h2]
+      rcases setMany_rel lhs hlen e1 e2 with ⟨hs1, hs2⟩ | ⟨e1', e2', hs1, hs2⟩
+      · simp only [hs1, hs2]
+        exact lock_stuck hΓ
+      · simp only [hs1, hs2]
+        have hl : (X1 name vs1).length = rl.length := by
+          rw [← setMany_length _ _ _ _ hs1, checkLhs_length _ _ hlhs]
+        right
+        refine ⟨?_, lowEqEnv_setMany lhs rl _ _ _ _ _ _ hlhs (hres hl) hΓ hs1 hs2, trivial⟩
+        show t ++ [_] = t ++ [_]
+        rw [hev]
 
-end Sound
+end Lock
 
-theorem soundAt_all (P : Prog) (S : Sigs) (G : Nat → Val) (X1 X2 : Oracle) (hX : OracleRel S X1 X2)
-    (hP : checkAll P S 0 P = true) : ∀ f1, SoundAt P S G X1 X2 f1 := by
-  intro f1
-  induction f1 with
+theorem lockAt_all (P : Prog) (S : Sigs) (G : Nat → Val) (X1 X2 : Oracle) (hX : OracleRel S X1 X2)
+    (hP : checkAll P S 0 P = true) : ∀ f, LockAt P S G X1 X2 f := by
+  intro f
+  induction f with
   | zero =>
-    intro f2 Γ res allowed s e1 e2 r1 r2 _ _ h1 _
-    simp [exec] at h1
-  | succ f1 ih =>
-    intro f2 Γ res allowed s e1 e2 r1 r2 hc hΓ h1 h2
-    cases f2 with
-    | zero => simp [exec] at h2
-    | succ f2 =>
-      cases s with
-      | skip =>
-        simp only [exec] at h1 h2
-        cases h1; cases h2
-        exact Or.inr ⟨rfl, hΓ, trivial⟩
-      | brk =>
-        simp only [exec] at h1 h2
-        cases h1; cases h2
-        exact Or.inr ⟨rfl, hΓ, trivial⟩
-      | cont =>
-        simp only [exec] at h1 h2
-        cases h1; cases h2
-        exact Or.inr ⟨rfl, hΓ, trivial⟩
-      | panic =>
-        simp only [exec] at h1 h2
-        cases h1; cases h2
-        exact Or.inr ⟨rfl, hΓ, trivial⟩
-      | assign x p e => exact sound_assign hc hΓ h1 h2
-      | declass x site e => exact sound_declass hc hΓ h1 h2
-      | ret es => exact sound_ret hc hΓ h1 h2
-      | seq a b => exact sound_seq ih hc hΓ h1 h2
-      | ite c a b => exact sound_ite ih hc hΓ h1 h2
-      | loop c body post => exact sound_loop ih hc hΓ h1 h2
-      | call lhs g args => exact sound_call hP ih hc hΓ h1 h2
-      | ext lhs name leaky args => exact sound_ext hX hc hΓ h1 h2
+    intro Γ res allowed s e1 e2 _ hΓ
+    exact lock_stuck hΓ
+  | succ f ih =>
+    intro Γ res allowed s e1 e2 hc hΓ
+    cases s with
+    | skip => exact Or.inr ⟨rfl, hΓ, trivial⟩
+    | brk => exact Or.inr ⟨rfl, hΓ, trivial⟩
+    | cont => exact Or.inr ⟨rfl, hΓ, trivial⟩
+    | panic => exact Or.inr ⟨rfl, hΓ, trivial⟩
+    | assign x p e => exact lock_assign hc hΓ
+    | declass x site e => exact lock_declass hc hΓ
+    | ret es => exact lock_ret hc hΓ
+    | seq a b => exact lock_seq ih hc hΓ
+    | ite c a b => exact lock_ite ih hc hΓ
+    | loop c body post => exact lock_loop ih hc hΓ
+    | call lhs g args => exact lock_call hP ih hc hΓ
+    | ext lhs name leaky args => exact lock_ext hX hc hΓ
+
+/-- lockstep: the SAME fuel in both runs, no termination hypothesis on either: the traces diverge at a
+    declassified verdict, or they are equal and the runs end in related states with related control
+    signals (in particular both are stuck, or neither) -/
+theorem exec_lockstep (P : Prog) (S : Sigs) (G : Nat → Val) (X1 X2 : Oracle) (hX : OracleRel S X1 X2)
+    (hP : checkAll P S 0 P = true) :
+    ∀ (f : Nat) (Γ : LEnv) (res : List Label) (allowed : List Nat) (s : Stmt) (e1 e2 : Env),
+      checkS P S Γ res allowed s = true → lowEqEnv Γ e1 e2 →
+      Div (exec P G X1 f e1 s).2.2 (exec P G X2 f e2 s).2.2 ∨
+      ((exec P G X1 f e1 s).2.2 = (exec P G X2 f e2 s).2.2 ∧
+        lowEqEnv Γ (exec P G X1 f e1 s).1 (exec P G X2 f e2 s).1 ∧
+        CtlRel res (exec P G X1 f e1 s).2.1 (exec P G X2 f e2 s).2.1) :=
+  fun f Γ res allowed s e1 e2 hc hΓ => lockAt_all P S G X1 X2 hX hP f Γ res allowed s e1 e2 hc hΓ
+
+
+/-! ## Fuel -/
+
+theorem seqK_mono {r r' : Res} {k k' : Env → Res} (h : (seqK r k).2.1 ≠ .stuck)
+    (hr : r.2.1 ≠ .stuck → r' = r) (hk : ∀ e, (k e).2.1 ≠ .stuck → k' e = k e) :
+    seqK r' k' = seqK r k := by
+  obtain ⟨env1, c1, t1⟩ := r
+  cases c1
+  case norm =>
+    have e := hr (by simp)
+    subst e
+    have hk1 : (k env1).2.1 ≠ .stuck := h
+    show ((k' env1).1, (k' env1).2.1, t1 ++ (k' env1).2.2) = ((k env1).1, (k env1).2.1, t1 ++ (k env1).2.2)
+    rw [hk env1 hk1]
+  case stuck => exact absurd rfl h
+  all_goals
+    have e := hr (by simp)
+    subst e
+    rfl
+
+theorem postK_mono {t0 t1 : Trace} {rp rp' : Res} {kl kl' : Env → Res}
+    (h : (postK t0 t1 rp kl).2.1 ≠ .stuck)
+    (hr : rp.2.1 ≠ .stuck → rp' = rp) (hl : ∀ e, (kl e).2.1 ≠ .stuck → kl' e = kl e) :
+    postK t0 t1 rp' kl' = postK t0 t1 rp kl := by
+  obtain ⟨env2, c2, t2⟩ := rp
+  cases c2
+  case norm =>
+    have e := hr (by simp)
+    subst e
+    have hl1 : (kl env2).2.1 ≠ .stuck := h
+    show ((kl' env2).1, (kl' env2).2.1, t0 ++ Event.loopc true :: (t1 ++ (t2 ++ (kl' env2).2.2))) =
+      ((kl env2).1, (kl env2).2.1, t0 ++ Event.loopc true :: (t1 ++ (t2 ++ (kl env2).2.2)))
+    rw [hl env2 hl1]
+  all_goals exact absurd rfl h
+
+theorem loopK_mono {t0 : Trace} {rb rb' : Res} {kp kp' kl kl' : Env → Res}
+    (h : (loopK t0 rb kp kl).2.1 ≠ .stuck)
+    (hr : rb.2.1 ≠ .stuck → rb' = rb) (hp : ∀ e, (kp e).2.1 ≠ .stuck → kp' e = kp e)
+    (hl : ∀ e, (kl e).2.1 ≠ .stuck → kl' e = kl e) :
+    loopK t0 rb' kp' kl' = loopK t0 rb kp kl := by
+  obtain ⟨env1, c1, t1⟩ := rb
+  cases c1
+  case norm =>
+    have e := hr (by simp)
+    subst e
+    exact postK_mono h (hp env1) hl
+  case cont =>
+    have e := hr (by simp)
+    subst e
+    exact postK_mono h (hp env1) hl
+  case stuck => exact absurd rfl h
+  all_goals
+    have e := hr (by simp)
+    subst e
+    rfl
+
+theorem callK_mono {env : Env} {lhs : List Nat} {t0 : Trace} {g : Nat} {rc rc' : Res}
+    (h : (callK env lhs t0 g rc).2.1 ≠ .stuck) (hr : rc.2.1 ≠ .stuck → rc' = rc) :
+    callK env lhs t0 g rc' = callK env lhs t0 g rc := by
+  obtain ⟨envc, cc, t1⟩ := rc
+  cases cc
+  case ret rs =>
+    have e := hr (by simp)
+    subst e
+    rfl
+  case panic =>
+    have e := hr (by simp)
+    subst e
+    rfl
+  all_goals exact absurd rfl h
+
+/-- more fuel does not change a run that is not stuck -/
+theorem exec_mono (P : Prog) (G : Nat → Val) (X : Oracle) :
+    ∀ (f : Nat) (e : Env) (s : Stmt), (exec P G X f e s).2.1 ≠ .stuck →
+      exec P G X (f + 1) e s = exec P G X f e s := by
+  intro f
+  induction f with
+  | zero =>
+    intro e s h
+    exact absurd rfl h
+  | succ f ih =>
+    intro e s h
+    cases s with
+    | skip => rfl
+    | brk => rfl
+    | cont => rfl
+    | panic => rfl
+    | assign x p ex => rfl
+    | declass x site ex => rfl
+    | ret es => rfl
+    | ext lhs name leaky args => rfl
+    | seq a b =>
+      rw [exec_seq] at h
+      rw [exec_seq, exec_seq]
+      exact seqK_mono h (ih e a) (fun e' => ih e' b)
+    | ite c a b =>
+      rw [exec_ite] at h
+      rw [exec_ite, exec_ite]
+      cases hc : evalE G e c with
+      | none => rfl
+      | some q =>
+        obtain ⟨v, t0⟩ := q
+        simp only [hc] at h ⊢
+        cases hd : asBool v with
+        | none => rfl
+        | some d =>
+          simp only [hd] at h ⊢
+          rw [ih e _ h]
+    | loop c body post =>
+      rw [exec_loop] at h
+      rw [exec_loop, exec_loop]
+      cases hc : evalE G e c with
+      | none => rfl
+      | some q =>
+        obtain ⟨v, t0⟩ := q
+        simp only [hc] at h ⊢
+        cases hd : asBool v with
+        | none => rfl
+        | some d =>
+          cases d with
+          | false => rfl
+          | true =>
+            simp only [hd] at h ⊢
+            exact loopK_mono h (ih e body) (fun e' => ih e' post)
+              (fun e' => ih e' (.loop c body post))
+    | call lhs g args =>
+      rw [exec_call] at h
+      rw [exec_call, exec_call]
+      cases hc : evalEs G e args with
+      | none => rfl
+      | some q =>
+        obtain ⟨vs, t0⟩ := q
+        cases hfn : P[g]? with
+        | none => rfl
+        | some fn =>
+          simp only [hc, hfn] at h ⊢
+          by_cases hcond : (fn.stub || vs.length != fn.nparams) = true
+          · rw [if_pos hcond, if_pos hcond]
+          · rw [if_neg hcond] at h
+            rw [if_neg hcond, if_neg hcond]
+            exact callK_mono h (ih _ fn.body)
+
+theorem exec_mono_add (P : Prog) (G : Nat → Val) (X : Oracle) (f : Nat) (e : Env) (s : Stmt)
+    (h : (exec P G X f e s).2.1 ≠ .stuck) : ∀ k, exec P G X (f + k) e s = exec P G X f e s := by
+  intro k
+  induction k with
+  | zero => rfl
+  | succ k ih =>
+    have h' : (exec P G X (f + k) e s).2.1 ≠ .stuck := by rw [ih]; exact h
+    rw [← Nat.add_assoc, exec_mono P G X (f + k) e s h', ih]
+
+theorem exec_mono_le (P : Prog) (G : Nat → Val) (X : Oracle) (f f' : Nat) (hf : f ≤ f') (e : Env)
+    (s : Stmt) (h : (exec P G X f e s).2.1 ≠ .stuck) : exec P G X f' e s = exec P G X f e s := by
+  obtain ⟨k, rfl⟩ := Nat.exists_eq_add_of_le hf
+  exact exec_mono_add P G X f e s h k
+
+theorem runT_mono_le (P : Prog) (G : Nat → Val) (X : Oracle) (f f' : Nat) (hf : f ≤ f') (g : Nat)
+    (a : List Val) (h : (runT P G X f g a).1 ≠ .stuck) : runT P G X f' g a = runT P G X f g a := by
+  unfold runT at h ⊢
+  cases hfn : P[g]? with
+  | none => rfl
+  | some fn =>
+    simp only [hfn] at h ⊢
+    by_cases hcond : (fn.stub || a.length != fn.nparams) = true
+    · rw [if_pos hcond, if_pos hcond]
+    · rw [if_neg hcond] at h ⊢
+      rw [if_neg hcond]
+      have h' : (exec P G X f (Env.ofList a) fn.body).2.1 ≠ .stuck := h
+      rw [exec_mono_le P G X f f' hf _ _ h']
+
+theorem run_eq_some {P : Prog} {G : Nat → Val} {X : Oracle} {f g : Nat} {a : List Val} {c : Ctl}
+    {t : Trace} : run P G X f g a = some (c, t) ↔
+      (runT P G X f g a = (c, t) ∧ ((∃ vs, c = .ret vs) ∨ c = .panic)) := by
+  unfold run
+  generalize runT P G X f g a = r
+  obtain ⟨c', t'⟩ := r
+  cases c' <;> simp <;> intro h <;> subst h <;> simp
+
+theorem run_mono_le {P : Prog} {G : Nat → Val} {X : Oracle} {f f' : Nat} (hf : f ≤ f') {g : Nat}
+    {a : List Val} {c : Ctl} {t : Trace} (h : run P G X f g a = some (c, t)) :
+    run P G X f' g a = some (c, t) := by
+  obtain ⟨hr, hc⟩ := run_eq_some.1 h
+  have hns : (runT P G X f g a).1 ≠ .stuck := by
+    rw [hr]
+    rcases hc with ⟨vs, rfl⟩ | rfl <;> simp
+  exact run_eq_some.2 ⟨(runT_mono_le P G X f f' hf g a hns).trans hr, hc⟩
+
 
 /-! ## The theorems -/
 
-/-- main invariant, by induction on fuel -/
-theorem exec_sound (P : Prog) (S : Sigs) (G : Nat → Val) (X1 X2 : Oracle) (hX : OracleRel S X1 X2)
-    (hP : checkAll P S 0 P = true) :
-    ∀ (f1 f2 : Nat) (Γ : LEnv) (res : List Label) (allowed : List Nat) (s : Stmt) (e1 e2 : Env)
-      (r1 r2 : Res),
-      checkS P S Γ res allowed s = true → lowEqEnv Γ e1 e2 →
-      exec P G X1 f1 e1 s = some r1 → exec P G X2 f2 e2 s = some r2 →
-      Div r1.2.2 r2.2.2 ∨ (r1.2.2 = r2.2.2 ∧ lowEqEnv Γ r1.1 r2.1 ∧ CtlRel res r1.2.1 r2.2.1) :=
-  fun f1 f2 Γ res allowed s e1 e2 r1 r2 hc hΓ h1 h2 =>
-    soundAt_all P S G X1 X2 hX hP f1 f2 Γ res allowed s e1 e2 r1 r2 hc hΓ h1 h2
+theorem check_lockstep (P : Prog) (S : Sigs) (G : Nat → Val) (X1 X2 : Oracle) (hX : OracleRel S X1 X2)
+    (g : Nat) (hc : check P S g = true) (fs : FnSig) (hfs : S.fn[g]? = some fs)
+    (a1 a2 : List Val) (ha : lowEqList fs.params a1 a2) (f : Nat) :
+    Div (runT P G X1 f g a1).2 (runT P G X2 f g a2).2 ∨
+    ((runT P G X1 f g a1).2 = (runT P G X2 f g a2).2 ∧
+      CtlRel fs.results (runT P G X1 f g a1).1 (runT P G X2 f g a2).1) := by
+  unfold check at hc
+  simp only [Bool.and_eq_true] at hc
+  obtain ⟨hg, hP⟩ := hc
+  unfold runT
+  cases hfn : P[g]? with
+  | none => simp [hfn] at hg
+  | some fn =>
+    simp only [hfn, Bool.not_eq_true'] at hg ⊢
+    obtain ⟨hpl, htake, hbody⟩ := checkAll_fn hP hfn hfs hg
+    obtain ⟨hl1, hl2⟩ := lowEqList_length _ _ _ ha
+    have c1 : (fn.stub || a1.length != fn.nparams) = false := by simp [hg, hl1, hpl]
+    have c2 : (fn.stub || a2.length != fn.nparams) = false := by simp [hg, hl2, hpl]
+    simp only [c1, c2, Bool.false_eq_true, if_false]
+    have hΓ' := lowEqEnv_ofList (gammaOf S fs fn) fs.params fn.nparams htake hpl a1 a2 ha
+    rcases exec_lockstep P S G X1 X2 hX hP f _ fs.results fs.declass fn.body _ _ hbody hΓ' with
+      hd | ⟨ht, _, hC⟩
+    · left
+      exact hd.cons _
+    · right
+      exact ⟨congrArg (Event.call g :: ·) ht, hC⟩
 
-theorem run_inv {P : Prog} {G : Nat → Val} {X : Oracle} {f g : Nat} {args : List Val} {c : Ctl}
-    {t : Trace} (h : run P G X f g args = some (c, t)) :
-    ∃ fn env' t', P[g]? = some fn ∧ fn.stub = false ∧ args.length = fn.nparams ∧
-      exec P G X f (Env.ofList args) fn.body = some (env', c, t') ∧ t = .call g :: t' := by
-  unfold run at h
-  split at h
-  · rename_i fn hfn
-    split at h
-    · cases h
-    · rename_i hcond
-      simp only [Bool.or_eq_true, bne_iff_ne, ne_eq, not_or, Bool.not_eq_true, Decidable.not_not]
-        at hcond
-      split at h
-      · rename_i env' c' t' hx
-        cases h
-        exact ⟨fn, env', t', hfn, hcond.1, hcond.2, hx, rfl⟩
-      · cases h
-  · cases h
+/-- progress: if the first run completes with fuel `f`, the second run with the SAME fuel either
+    completes with the same trace, or its (possibly partial) trace departs from the first at a
+    declassified verdict -/
+theorem check_progress (P : Prog) (S : Sigs) (G : Nat → Val) (X1 X2 : Oracle) (hX : OracleRel S X1 X2)
+    (g : Nat) (hc : check P S g = true) (fs : FnSig) (hfs : S.fn[g]? = some fs)
+    (a1 a2 : List Val) (ha : lowEqList fs.params a1 a2) (f : Nat) (c1 : Ctl) (t1 : Trace)
+    (h1 : run P G X1 f g a1 = some (c1, t1)) :
+    (∃ c2, run P G X2 f g a2 = some (c2, t1) ∧ CtlRel fs.results c1 c2) ∨
+    Div t1 (runT P G X2 f g a2).2 := by
+  obtain ⟨hr1, hc1⟩ := run_eq_some.1 h1
+  have h := check_lockstep P S G X1 X2 hX g hc fs hfs a1 a2 ha f
+  rw [hr1] at h
+  rcases h with hd | ⟨ht, hC⟩
+  · exact Or.inr hd
+  · left
+    simp only at ht hC
+    generalize hr2 : runT P G X2 f g a2 = r2 at ht hC
+    obtain ⟨c2, t2⟩ := r2
+    simp only at ht hC
+    subst ht
+    refine ⟨c2, run_eq_some.2 ⟨hr2, ?_⟩, hC⟩
+    rcases hc1 with ⟨vs, rfl⟩ | rfl
+    · cases c2 <;> first | exact False.elim hC | exact Or.inl ⟨_, rfl⟩
+    · cases c2 <;> first | exact False.elim hC | exact Or.inr rfl
 
+/-- in particular: equal declassified verdicts (on the trace so far of the second run) ⇒ the second run
+    completes, with the same trace -/
+theorem check_progress_verdicts (P : Prog) (S : Sigs) (G : Nat → Val) (X1 X2 : Oracle)
+    (hX : OracleRel S X1 X2)
+    (g : Nat) (hc : check P S g = true) (fs : FnSig) (hfs : S.fn[g]? = some fs)
+    (a1 a2 : List Val) (ha : lowEqList fs.params a1 a2) (f : Nat) (c1 : Ctl) (t1 : Trace)
+    (h1 : run P G X1 f g a1 = some (c1, t1))
+    (hd : declassOf t1 = declassOf (runT P G X2 f g a2).2) :
+    ∃ c2, run P G X2 f g a2 = some (c2, t1) ∧ CtlRel fs.results c1 c2 := by
+  rcases check_progress P S G X1 X2 hX g hc fs hfs a1 a2 ha f c1 t1 h1 with h | h
+  · exact h
+  · exact absurd hd h.declass_ne
+
+/-- two completed runs (with possibly different fuel) -/
 theorem check_sound (P : Prog) (S : Sigs) (G : Nat → Val) (X1 X2 : Oracle) (hX : OracleRel S X1 X2)
     (g : Nat) (hc : check P S g = true) (fs : FnSig) (hfs : S.fn[g]? = some fs)
     (a1 a2 : List Val) (ha : lowEqList fs.params a1 a2)
     (f1 f2 : Nat) (c1 c2 : Ctl) (t1 t2 : Trace)
     (h1 : run P G X1 f1 g a1 = some (c1, t1)) (h2 : run P G X2 f2 g a2 = some (c2, t2)) :
     Div t1 t2 ∨ (t1 = t2 ∧ CtlRel fs.results c1 c2) := by
-  have hP : checkAll P S 0 P = true := by
-    unfold check at hc
-    simp only [Bool.and_eq_true] at hc
-    exact hc.2
-  obtain ⟨fn1, env1, u1, hfn1, hst1, _, hx1, rfl⟩ := run_inv h1
-  obtain ⟨fn2, env2, u2, hfn2, _, _, hx2, rfl⟩ := run_inv h2
-  have efn : fn1 = fn2 := Option.some.inj (hfn1.symm.trans hfn2)
-  subst efn
-  obtain ⟨hpl, htake, hbody⟩ := checkAll_fn hP hfn1 hfs hst1
-  have hΓ' := lowEqEnv_ofList (gammaOf S fs fn1) fs.params fn1.nparams htake hpl a1 a2 ha
-  rcases exec_sound P S G X1 X2 hX hP f1 f2 _ fs.results fs.declass fn1.body _ _ _ _ hbody hΓ'
-    hx1 hx2 with hd | ⟨ht, _, hC⟩
-  · left
-    exact hd.cons _
-  · right
-    simp only at ht hC
-    subst ht
-    exact ⟨rfl, hC⟩
+  have h1' := run_mono_le (Nat.le_max_left f1 f2) h1
+  have h2' := run_mono_le (Nat.le_max_right f1 f2) h2
+  obtain ⟨hr1, _⟩ := run_eq_some.1 h1'
+  obtain ⟨hr2, _⟩ := run_eq_some.1 h2'
+  have h := check_lockstep P S G X1 X2 hX g hc fs hfs a1 a2 ha (max f1 f2)
+  rw [hr1, hr2] at h
+  exact h
 
 /-- the form quoted by property C08: equal declassified verdicts ⇒ equal traces -/
 theorem check_sound_trace (P : Prog) (S : Sigs) (G : Nat → Val) (X1 X2 : Oracle)
@@ -1438,7 +1928,11 @@ theorem check_sound_trace (P : Prog) (S : Sigs) (G : Nat → Val) (X1 X2 : Oracl
   · exact absurd hd h.declass_ne
   · exact h
 
-#print axioms exec_sound
+#print axioms exec_lockstep
+#print axioms exec_mono
+#print axioms check_lockstep
+#print axioms check_progress
+#print axioms check_progress_verdicts
 #print axioms check_sound
 #print axioms check_sound_trace
 
